@@ -1,11 +1,13 @@
-(** C07 — proofs, part 11: parse_render, fifth instalment (selection sets) -- IN PROGRESS.
-    Available: [chain_runs] (e1 ~ e2 ~ … ~ en of a skipping rule as a list of elements with text, gap and pairs --
-    the tool for Field / FragmentSpread / InlineFragment / definitions), the selection syntax with trivia ([rsel], [rss],
-    [sel_full], [ss_text]), abstract selections and erasures, [alias_runs]/[alias_fails], the failure lemmas for
-    SelectionSet / Directives, [build_selection_fn] with [build_selection_set_eq] (the builder's closure as a function),
-    the statements [ss_ok]/[sel_ok] to be proved by induction, and the field chain elements.  Not yet: the field /
-    spread / inline-fragment lemmas and the induction itself. *)
-From V Require Import Base.Util Gql.Ast Peg.Peg Peg.PegProps Gen.C07_grammar_gen C07.Builder C07.Model C07.Spec C07.Proofs C07.Lexical C07.Strings C07.Numbers C07.Render C07.RenderValues C07.RenderArgs C07.RenderDirs.
+(** C07 — proofs, part 11: parse_render, fifth instalment (selection sets).
+    [rsel]/[rss] are selections / selection sets with the whitespace trivia of every gap; [sel_full]/[ss_text] the text;
+    [wf_sel]/[wf_ss] the computable well-formedness (names, trivia, token separation [seps_ok]).  Tools: [chain_runs]
+    (e1 ~ e2 ~ … ~ en of a skipping rule as a list of elements with text, gap and pairs; optional elements [opt_elt]),
+    head facts [hdP]/[hdR], [slot_opt_elt] (the opt slot of parts! on an optional element).  Per production:
+    [field_ok] (Alias? Name Arguments? Directives? SelectionSet?, the Field pair swallows the trivia up to the next
+    selection unless it ends with a sub-selection), [spread_ok], [inline_ok] (Field and FragmentSpread fail first),
+    [ss_ok_of] (Selection+ via items_plus_close), tied together by the nested mutual induction [rsel_ind2]/[rss_ind2].
+    Result: [parse_render_selection_set]. *)
+From V Require Import Base.Util Gql.Ast Peg.Peg Peg.PegProps Gen.C07_grammar_gen C07.Builder C07.Model C07.Spec C07.Proofs C07.Lexical C07.Strings C07.Numbers C07.Render C07.RenderValues C07.RenderArgs C07.RenderDirs C07.RenderValid.
 Local Open Scope N_scope.
 
 (** ** chains:  e1 ~ e2 ~ … ~ en  in a skipping rule, each element with its text, the gap after it and its pairs *)
@@ -225,7 +227,8 @@ Proof. reflexivity. Qed.
 Definition ss_ok (ss : rss) : Prop := exists Tf : N -> pr,
   (forall i, pair_rule (Tf i) = R_SelectionSet) /\
   (forall rest i, runs G true ANon (Call R_SelectionSet) (ss_text ss ++ rest) i (Ok (rest, i + slen (ss_text ss), [Tf i]))) /\
-  (forall pre rest file, exists ss', build_selection_set (pre ++ ss_text ss ++ rest) file (Tf (slen pre)) = BOk ss' /\ ss_erase ss' = erase_ss ss).
+  (forall pre rest file, exists ss', build_selection_set (pre ++ ss_text ss ++ rest) file (Tf (slen pre)) = BOk ss' /\ ss_erase ss' = erase_ss ss) /\
+  (forall pre rest, valid (pre ++ ss_text ss ++ rest) (Tf (slen pre))).
 
 Definition sel_ok (s : rsel) : Prop := exists (txt gap : str) (Tf : N -> pr),
   txt ++ gap = sel_full s /\ ws gap = true /\
@@ -233,16 +236,77 @@ Definition sel_ok (s : rsel) : Prop := exists (txt gap : str) (Tf : N -> pr),
   (forall i, pair_rule (Tf i) = R_Selection) /\
   (forall k i, sel_follow k -> name_end_ok (sel_full s) k ->
      runs G true ANon (Call R_Selection) (txt ++ gap ++ k) i (Ok (gap ++ k, i + slen txt, [Tf i]))) /\
-  (forall pre rest file, exists sel', build_selection_fn (pre ++ txt ++ rest) file (Tf (slen pre)) = BOk sel' /\ sel_erase sel' = erase_sel s).
+  (forall pre rest file, exists sel', build_selection_fn (pre ++ txt ++ gap ++ rest) file (Tf (slen pre)) = BOk sel' /\ sel_erase sel' = erase_sel s) /\
+  (forall pre rest, valid (pre ++ txt ++ gap ++ rest) (Tf (slen pre))).
 
-(** optional chain element *)
-Definition opt_elt (x : pexp rule) (o : option (str * str * (N -> list pr))) : celt :=
-  match o with Some (t, g, T) => (Opt x, t, g, T) | None => (Opt x, [], [], fun _ => []) end.
+(** ** head facts: a property of the first character of a text (vacuous at the end) *)
+Definition hdP (t : str) (P : N -> Prop) : Prop := match t with d :: _ => P d | [] => True end.
+Definition sub_text (sub : option (rss * str)) : str := match sub with Some (ss, _) => ss_text ss | None => [] end.
+Definition sub_gap (sub : option (rss * str)) : str := match sub with Some (_, g) => g | None => [] end.
+
+Lemma ss_text_head ss : exists t, ss_text ss = 123 :: t.
+Proof. destruct ss as [g0 sels]. rewrite ss_text_eq. eexists; reflexivity. Qed.
+
+Lemma dirs_text_head d ds : exists t, dirs_text (d :: ds) = 64 :: t.
+Proof.
+  destruct (rdir_text_head d) as [t0 E0]. unfold dirs_text. cbn [map items_text]. change (it_text (rdir_item d)) with (rdir_text d).
+  rewrite E0. eexists; reflexivity.
+Qed.
+
+Lemma hd_sub sub k (P : N -> Prop) : P 123 -> (sub = None -> hdP k P) -> hdP (sub_text sub ++ sub_gap sub ++ k) P.
+Proof.
+  intros H1 H2. destruct sub as [[ss g]|]; [|exact (H2 eq_refl)].
+  cbn [sub_text sub_gap]. destruct (ss_text_head ss) as [t ->]. exact H1.
+Qed.
+Lemma hd_dirs ds R (P : N -> Prop) : P 64 -> (ds = [] -> hdP R P) -> hdP (dirs_text ds ++ R) P.
+Proof.
+  intros H1 H2. destruct ds as [|d ds]; [exact (H2 eq_refl)|]. destruct (dirs_text_head d ds) as [t ->]. exact H1.
+Qed.
+Lemma hd_args ar R (P : N -> Prop) : P 40 -> (ar = None -> hdP R P) -> hdP (oargs_text ar ++ R) P.
+Proof. intros H1 H2. destruct ar as [[[g0 args] g2]|]; [exact H1|exact (H2 eq_refl)]. Qed.
+
+(** optional chain element with a single pair *)
+Notation oelt := (option (str * str * (N -> pr))).
+Definition opt_elt (x : pexp rule) (o : oelt) : celt :=
+  match o with Some (t, g, T) => (Opt x, t, g, fun i => [T i]) | None => (Opt x, [], [], fun _ => []) end.
+Definition o_text (o : oelt) : str := match o with Some (t, g, _) => t ++ g | None => [] end.
+Definition o_pair (o : oelt) (i : N) : option pr := match o with Some (_, _, T) => Some (T i) | None => None end.
+
+Lemma c_exp_opt x o : c_exp (opt_elt x o) = Opt x.
+Proof. destruct o as [[[t g] T]|]; reflexivity. Qed.
+Lemma opt_elt_txt x o X : c_text (opt_elt x o) ++ c_gap (opt_elt x o) ++ X = o_text o ++ X.
+Proof. destruct o as [[[t g] T]|]; [|reflexivity]. cbn [opt_elt o_text c_text c_gap fst snd]. rewrite <- app_assoc. reflexivity. Qed.
+Lemma opt_elt_len x o : slen (c_text (opt_elt x o)) + slen (c_gap (opt_elt x o)) = slen (o_text o).
+Proof. destruct o as [[[t g] T]|]; [|reflexivity]. cbn [opt_elt o_text c_text c_gap fst snd]. rewrite slen_app. reflexivity. Qed.
+
+Lemma opt_elt_runs x o R :
+  (forall t g T, o = Some (t, g, T) -> forall i, runs G true ANon x (t ++ g ++ R) i (Ok (g ++ R, i + slen t, [T i]))) ->
+  (o = None -> forall i, runs G true ANon x R i Fail) ->
+  forall i, runs G true ANon (c_exp (opt_elt x o)) (c_text (opt_elt x o) ++ c_gap (opt_elt x o) ++ R) i
+              (Ok (c_gap (opt_elt x o) ++ R, i + slen (c_text (opt_elt x o)), c_tree (opt_elt x o) i)).
+Proof.
+  intros Hs Hn i. destruct o as [[[t g] T]|]; cbn [opt_elt c_exp c_text c_gap c_tree fst snd].
+  - apply runs_Opt_some. apply (Hs t g T eq_refl).
+  - cbn [app]. change (slen []) with 0. rewrite N.add_0_r. apply runs_Opt_none. apply (Hn eq_refl).
+Qed.
+
+(** head facts on child lists, and the optional slot of parts! on an optional element *)
+Definition hdR (l : list pr) (Q : pr -> Prop) : Prop := match l with p :: _ => Q p | [] => True end.
+Lemma hdR_opt x o i rest (Q : pr -> Prop) :
+  (forall t g T, o = Some (t, g, T) -> Q (T i)) -> (o = None -> hdR rest Q) -> hdR (c_tree (opt_elt x o) i ++ rest) Q.
+Proof. intros Hs Hn. destruct o as [[[t g] T]|]; [exact (Hs t g T eq_refl)|exact (Hn eq_refl)]. Qed.
+
+Lemma slot_opt_elt {A} r x o i rest (k : option pr -> list pr -> bres A) :
+  (forall t g T, o = Some (t, g, T) -> is_rule r (T i) = true) ->
+  (o = None -> hdR rest (fun p => is_rule r p = false)) ->
+  slot_opt r (c_tree (opt_elt x o) i ++ rest) k = k (o_pair o i) rest.
+Proof.
+  intros Hs Hn. destruct o as [[[t g] T]|]; cbn [opt_elt c_tree snd o_pair app].
+  - unfold slot_opt. rewrite (Hs t g T eq_refl). reflexivity.
+  - specialize (Hn eq_refl). unfold slot_opt. destruct rest as [|p rest']; [reflexivity|]. cbn [hdR] in Hn. rewrite Hn. reflexivity.
+Qed.
 
 Lemma at_token_app_head c t X : at_token (c :: t) -> at_token ((c :: t) ++ X).
-Proof. intros H. exact H. Qed.
-
-Lemma head_facts_of_char (c : N) X (P : N -> Prop) : P c -> match (c :: X) with d :: _ => P d | [] => True end.
 Proof. intros H. exact H. Qed.
 
 (** ** fields *)
@@ -251,22 +315,24 @@ Definition wf_alias (al : option (str * str * str)) : bool :=
 Definition wf_oargs (ar : option (str * list fld * str)) : bool :=
   match ar with Some (g0, args, g2) => wf_args g0 args && ws g2 | None => true end.
 
-Definition alias_elt (al : option (str * str * str)) : celt :=
-  opt_elt (Call R_Alias)
-    (match al with Some (a, ga, gb) => Some (a ++ ga ++ [58], gb, fun i => [alias_tree a (slen (a ++ ga ++ [58])) i]) | None => None end).
+Definition alias_o (al : option (str * str * str)) : oelt :=
+  match al with Some (a, ga, gb) => Some (a ++ ga ++ [58], gb, alias_tree a (slen (a ++ ga ++ [58]))) | None => None end.
+Definition args_o (ar : option (str * list fld * str)) : oelt :=
+  match ar with Some (g0, args, g2) => Some (render_args g0 args, g2, args_tree g0 args) | None => None end.
+(** the directives element is determined by what directives_runs gives: consumed text [cd]; [g] is the part of the
+    left-over trivia that the enclosing rule still consumes *)
+Definition dirs_o (ds : list rdir) (cd g : str) : oelt :=
+  match ds with [] => None | _ => Some (cd, g, fun i => Pair R_Directives i (i + slen cd) (items_trees (map rdir_item ds) i)) end.
+Definition sub_o (sub : option (rss * str)) (Tf : N -> pr) : oelt :=
+  match sub with Some (ss, _) => Some (ss_text ss, [], Tf) | None => None end.
 Definition name_elt (n g1 : str) : celt := (Call R_Name, n, g1, fun i => [Pair R_Name i (i + slen n) []]).
-Definition args_elt (ar : option (str * list fld * str)) : celt :=
-  opt_elt (Call R_Arguments) (match ar with Some (g0, args, g2) => Some (render_args g0 args, g2, fun i => [args_tree g0 args i]) | None => None end).
-(** the directives element is determined by what directives_runs gives: consumed text [cd], left-over trivia [gd] *)
-Definition dirs_elt (ds : list rdir) (cd gd : str) : celt :=
-  opt_elt (Call R_Directives)
-    (match ds with [] => None | _ => Some (cd, gd, fun i => [Pair R_Directives i (i + slen cd) (items_trees (map rdir_item ds) i)]) end).
-Definition sub_elt (sub : option (rss * str)) (Tf : N -> pr) : celt :=
-  opt_elt (Call R_SelectionSet) (match sub with Some (ss, _) => Some (ss_text ss, [], fun i => [Tf i]) | None => None end).
 
-Lemma opt_elt_present x t g T : opt_elt x (Some (t, g, T)) = (Opt x, t, g, T).
-Proof. reflexivity. Qed.
-
+Lemma alias_o_text al : o_text (alias_o al) = alias_text al.
+Proof. destruct al as [[[a ga] gb]|]; [|reflexivity]. cbn [alias_o o_text alias_text]. rewrite <- !app_assoc. reflexivity. Qed.
+Lemma args_o_text ar : o_text (args_o ar) = oargs_text ar.
+Proof. destruct ar as [[[g0 args] g2]|]; reflexivity. Qed.
+Lemma sub_o_text sub Tf : o_text (sub_o sub Tf) = sub_text sub.
+Proof. destruct sub as [[ss g]|]; [|reflexivity]. cbn [sub_o o_text sub_text]. apply app_nil_r. Qed.
 
 (** splitting the text of a directive list at the point where the Directives pair ends: [cd] is inside, the
     trivia [dirs_tail] outside -- the same split whatever follows *)
@@ -292,3 +358,1096 @@ Proof.
     assert (Hmc : m' = slen c) by (rewrite Hc, slen_app in Hm'; lia).
     specialize (Hrun i). rewrite Hc, <- app_assoc in Hrun. rewrite <- Hmc. exact Hrun.
 Qed.
+
+
+(** the same for a possibly empty list *)
+Lemma dirs_split' ds : forallb rdir_wf ds = true ->
+  exists cd, dirs_text ds = cd ++ dirs_tail ds /\ ws (dirs_tail ds) = true /\ (ds = [] -> cd = []) /\
+    (ds <> [] -> exists t, cd = 64 :: t) /\
+    (ds <> [] -> forall k, follow_dirs ds k ->
+     forall i, runs G true ANon (Call R_Directives) (cd ++ dirs_tail ds ++ k) i
+       (Ok (dirs_tail ds ++ k, i + slen cd, [Pair R_Directives i (i + slen cd) (items_trees (map rdir_item ds) i)]))).
+Proof.
+  intros Hwf. destruct ds as [|d ds].
+  - exists []. split; [reflexivity|]. split; [reflexivity|]. split; [reflexivity|]. split; intros H; contradiction.
+  - destruct (dirs_split d ds Hwf) as [cd [H1 [H2 [H3 H4]]]]. exists cd. split; [exact H1|]. split; [exact H2|].
+    split; [discriminate|]. split; intros _; assumption.
+Qed.
+
+Definition dflt_dir : rdir := RDir1 [] [] [] [] [] [].
+Lemma last_wf : forall l, l <> [] -> forallb rdir_wf l = true -> rdir_wf (last l dflt_dir) = true.
+Proof.
+  induction l as [|d r IH]; intros Hne Hwf; [contradiction|].
+  cbn [forallb] in Hwf. apply andb_true_iff in Hwf. destruct Hwf as [Hd Hr].
+  destruct r as [|d2 r2]; [exact Hd|]. change (last (d :: d2 :: r2) dflt_dir) with (last (d2 :: r2) dflt_dir). apply IH; [discriminate|exact Hr].
+Qed.
+Lemma dirs_text_cons d r : dirs_text (d :: r) = rdir_text d ++ rdir_gap d ++ dirs_text r.
+Proof. reflexivity. Qed.
+Lemma dirs_text_ends g n : forall l, l <> [] -> last l dflt_dir = RDir0 g n [] -> exists x, dirs_text l = x ++ n.
+Proof.
+  induction l as [|d r IH]; intros Hne Hl; [contradiction|].
+  destruct r as [|d2 r2].
+  - cbn [last] in Hl. subst d. exists ([64] ++ g). rewrite dirs_text_cons. cbn [rdir_text rdir_gap]. unfold dir_text0, dirs_text. cbn [map items_text].
+    rewrite !app_nil_r, <- !app_assoc. reflexivity.
+  - change (last (d :: d2 :: r2) dflt_dir) with (last (d2 :: r2) dflt_dir) in Hl. destruct (IH ltac:(discriminate) Hl) as [x Hx].
+    exists (rdir_text d ++ rdir_gap d ++ x). rewrite dirs_text_cons, Hx, <- !app_assoc. reflexivity.
+Qed.
+
+(** what follows the directives of a selection: the sub-selection or the continuation *)
+Lemma follow_dirs_sel ds sub k s_full :
+  ds <> [] -> forallb rdir_wf ds = true -> sel_follow k ->
+  (sub = None -> forall x n, is_name n = true -> dirs_text ds = x ++ n -> ends_name s_full = true) ->
+  name_end_ok s_full k ->
+  follow_dirs ds (sub_text sub ++ sub_gap sub ++ k).
+Proof.
+  intros Hne Hwf [Hk1 Hk2] Hfull Hend.
+  assert (Hk2' : hdP k (fun d => N.eqb 58 d = false /\ N.eqb 40 d = false /\ N.eqb 64 d = false /\ N.eqb 123 d = false)) by exact Hk2.
+  split; [apply (hd_sub sub k (fun d => is_wsc d = false /\ N.eqb d 35 = false)); [split; reflexivity|intros _; exact Hk1]|].
+  split; [apply (hd_sub sub k (fun d => N.eqb 40 d = false)); [reflexivity|intros _; destruct k; [exact I|apply Hk2']]|].
+  split; [apply (hd_sub sub k (fun d => N.eqb 64 d = false)); [reflexivity|intros _; destruct k; [exact I|apply Hk2']]|].
+  change (RDir1 [] [] [] [] [] []) with dflt_dir.
+  destruct (last ds dflt_dir) as [g n w|] eqn:El; [|exact I]. destruct w; [|exact I].
+  apply (hd_sub sub k (fun d => is_name_cont d = false)); [reflexivity|]. intros Hs.
+  apply Hend. destruct (dirs_text_ends g n ds Hne El) as [x Hx].
+  pose proof (last_wf ds Hne Hwf) as Hlw. rewrite El in Hlw. cbn [rdir_wf] in Hlw.
+  apply andb_true_iff in Hlw. destruct Hlw as [Hlw _]. apply andb_true_iff in Hlw. destruct Hlw as [_ Hn].
+  exact (Hfull Hs x n Hn Hx).
+Qed.
+
+Lemma chain_txt_cons c r K : chain_txt (c :: r) K = c_text c ++ c_gap c ++ chain_txt r K.
+Proof. reflexivity. Qed.
+
+Lemma dirs_o_text ds cd g : dirs_text ds = cd ++ g -> o_text (dirs_o ds cd g) = dirs_text ds.
+Proof. intros H. destruct ds as [|d r]; [reflexivity|]. cbn [dirs_o o_text]. symmetry. exact H. Qed.
+
+Lemma dirs_o_some ds cd g t g' T : dirs_o ds cd g = Some (t, g', T) ->
+  ds <> [] /\ t = cd /\ g' = g /\ T = (fun i => Pair R_Directives i (i + slen cd) (items_trees (map rdir_item ds) i)).
+Proof. destruct ds as [|d r]; [discriminate|]. cbn [dirs_o]. intros E. inversion E. split; [discriminate|]. repeat split. Qed.
+
+Lemma ws_opt_gap x o : (forall t g T, o = Some (t, g, T) -> ws g = true) -> ws (c_gap (opt_elt x o)) = true.
+Proof. intros H. destruct o as [[[t g] T]|]; [exact (H t g T eq_refl)|reflexivity]. Qed.
+
+Lemma name_head n : is_name n = true -> exists c t, n = c :: t /\ is_name_start c = true.
+Proof. destruct n as [|c t]; [discriminate|]. intros H. unfold is_name in H. apply andb_true_iff in H. exists c, t. tauto. Qed.
+
+Definition field_elts al n g1 ar ds cd sub Tf : list celt :=
+  [opt_elt (Call R_Alias) (alias_o al); name_elt n g1; opt_elt (Call R_Arguments) (args_o ar);
+   opt_elt (Call R_Directives) (dirs_o ds cd (dirs_tail ds)); opt_elt (Call R_SelectionSet) (sub_o sub Tf)].
+
+Definition ss_runs (ss : rss) (Tf : N -> pr) : Prop :=
+  forall rest i, runs G true ANon (Call R_SelectionSet) (ss_text ss ++ rest) i (Ok (rest, i + slen (ss_text ss), [Tf i])).
+Definition dirs_run (ds : list rdir) (cd : str) : Prop :=
+  ds <> [] -> forall k, follow_dirs ds k ->
+  forall i, runs G true ANon (Call R_Directives) (cd ++ dirs_tail ds ++ k) i
+    (Ok (dirs_tail ds ++ k, i + slen cd, [Pair R_Directives i (i + slen cd) (items_trees (map rdir_item ds) i)])).
+
+Lemma field_chain al n g1 ar ds sub cd Tf k :
+  wf_alias al = true -> is_name n = true -> ws g1 = true -> wf_oargs ar = true -> forallb rdir_wf ds = true ->
+  dirs_text ds = cd ++ dirs_tail ds -> ws (dirs_tail ds) = true -> dirs_run ds cd ->
+  (forall ss g, sub = Some (ss, g) -> ss_runs ss Tf) ->
+  sel_follow k -> name_end_ok (sel_full (RField al n g1 ar ds sub)) k ->
+  chain_ok (field_elts al n g1 ar ds cd sub Tf) (sub_gap sub ++ k).
+Proof.
+  intros Hal Hn Hg1 Har Hds Hcd Hgd Hdrun Hsub Hk Hend.
+  pose proof Hk as [Hk1 Hk2].
+  assert (Hk2' : hdP k (fun d => N.eqb 58 d = false /\ N.eqb 40 d = false /\ N.eqb 64 d = false /\ N.eqb 123 d = false)) by exact Hk2.
+  set (K := sub_gap sub ++ k).
+  set (R3 := sub_text sub ++ K). set (R2 := dirs_text ds ++ R3). set (R1 := oargs_text ar ++ R2).
+  unfold field_elts.
+  set (e1 := opt_elt (Call R_Alias) (alias_o al)). set (e2 := name_elt n g1). set (e3 := opt_elt (Call R_Arguments) (args_o ar)).
+  set (e4 := opt_elt (Call R_Directives) (dirs_o ds cd (dirs_tail ds))). set (e5 := opt_elt (Call R_SelectionSet) (sub_o sub Tf)).
+  assert (E5 : chain_txt [e5] K = R3) by (unfold e5; rewrite chain_txt_cons; cbn [chain_txt]; rewrite opt_elt_txt, sub_o_text; reflexivity).
+  assert (E4 : chain_txt [e4; e5] K = R2) by (rewrite chain_txt_cons, E5; unfold e4; rewrite opt_elt_txt, (dirs_o_text ds cd (dirs_tail ds) Hcd); reflexivity).
+  assert (E3 : chain_txt [e3; e4; e5] K = R1) by (rewrite chain_txt_cons, E4; unfold e3; rewrite opt_elt_txt, args_o_text; reflexivity).
+  assert (E2 : chain_txt [e2; e3; e4; e5] K = n ++ g1 ++ R1) by (rewrite chain_txt_cons, E3; reflexivity).
+  cbn [chain_ok]. rewrite E2, E3, E4, E5. cbn [chain_txt].
+  unfold e1, e2, e3, e4, e5. cbn [name_elt c_text c_gap c_exp c_tree fst snd].
+  (* head facts *)
+  assert (Htok3 : at_token R3) by (apply (hd_sub sub k (fun d => is_wsc d = false /\ N.eqb d 35 = false)); [split; reflexivity|intros _; exact Hk1]).
+  assert (Htok2 : at_token R2) by (apply (hd_dirs ds R3 (fun d => is_wsc d = false /\ N.eqb d 35 = false)); [split; reflexivity|intros _; exact Htok3]).
+  assert (Htok1 : at_token R1) by (apply (hd_args ar R2 (fun d => is_wsc d = false /\ N.eqb d 35 = false)); [split; reflexivity|intros _; exact Htok2]).
+  assert (Hnc : not_name_cont_next (g1 ++ R1)).
+  { apply ws_then_not_name_cont; [exact Hg1|]. intros Eg.
+    apply (hd_args ar R2 (fun d => is_name_cont d = false)); [reflexivity|]. intros Ea.
+    apply (hd_dirs ds R3 (fun d => is_name_cont d = false)); [reflexivity|]. intros Ed.
+    apply (hd_sub sub k (fun d => is_name_cont d = false)); [reflexivity|]. intros Es.
+    apply Hend. subst g1 ar ds sub. cbn [sel_full oargs_text]. change (dirs_text []) with (@nil N). rewrite !app_nil_r.
+    apply ends_name_app_name; exact Hn. }
+  destruct (name_head n Hn) as [c0 [t0 [En Hc0]]].
+  split; [apply ws_opt_gap; intros t g T E; destruct al as [[[a ga] gb]|]; [|discriminate]; inversion E; subst;
+          cbn [wf_alias] in Hal; apply andb_true_iff in Hal; tauto|].
+  split; [intros H; discriminate|].
+  split; [intros _; rewrite En; cbn [app]; apply name_start_token; exact Hc0|].
+  split.
+  { apply opt_elt_runs.
+    - intros t g T E i. destruct al as [[[a ga] gb]|]; [|discriminate]. inversion E; subst.
+      cbn [wf_alias] in Hal. apply andb_true_iff in Hal. destruct Hal as [Hal Hgb]. apply andb_true_iff in Hal. destruct Hal as [Ha Hga].
+      apply alias_runs; assumption.
+    - intros E i. apply alias_fails; try assumption.
+      apply (hd_args ar R2 (fun d => N.eqb 58 d = false)); [reflexivity|]. intros _.
+      apply (hd_dirs ds R3 (fun d => N.eqb 58 d = false)); [reflexivity|]. intros _.
+      apply (hd_sub sub k (fun d => N.eqb 58 d = false)); [reflexivity|]. intros _.
+      destruct k; [exact I|apply Hk2']. }
+  split; [exact Hg1|]. split; [intros H; discriminate|]. split; [intros _; exact Htok1|].
+  split; [intros i; apply name_runs; [exact Hn|exact Hnc]|].
+  split; [apply ws_opt_gap; intros t g T E; destruct ar as [[[g0 args] g2]|]; [|discriminate]; inversion E; subst;
+          cbn [wf_oargs] in Har; apply andb_true_iff in Har; tauto|].
+  split; [intros H; discriminate|]. split; [intros _; exact Htok2|].
+  split.
+  { apply opt_elt_runs.
+    - intros t g T E i. destruct ar as [[[g0 args] g2]|]; [|discriminate]. inversion E; subst.
+      cbn [wf_oargs] in Har. apply andb_true_iff in Har. destruct Har as [Har _]. apply arguments_runs; exact Har.
+    - intros E i. apply arguments_fails.
+      apply (hd_dirs ds R3 (fun d => N.eqb 40 d = false)); [reflexivity|]. intros _.
+      apply (hd_sub sub k (fun d => N.eqb 40 d = false)); [reflexivity|]. intros _.
+      destruct k; [exact I|apply Hk2']. }
+  split; [apply ws_opt_gap; intros t g T E; destruct ds as [|d ds']; [discriminate|]; inversion E; subst; exact Hgd|].
+  split; [intros H; discriminate|]. split; [intros _; exact Htok3|].
+  split.
+  { apply opt_elt_runs.
+    - intros t g T E i. destruct (dirs_o_some _ _ _ _ _ _ E) as [Hne [-> [-> ->]]].
+      apply Hdrun; [exact Hne|].
+      apply (follow_dirs_sel ds sub k (sel_full (RField al n g1 ar ds sub))); [exact Hne|exact Hds|exact Hk| |exact Hend].
+      intros Es x n' Hn' Hx. subst sub. cbn [sel_full]. rewrite Hx, app_nil_r.
+      replace (alias_text al ++ n ++ g1 ++ oargs_text ar ++ x ++ n') with ((alias_text al ++ n ++ g1 ++ oargs_text ar ++ x) ++ n') by (rewrite <- !app_assoc; reflexivity).
+      apply ends_name_app_name; exact Hn'.
+    - intros E i. apply directives_fails.
+      apply (hd_sub sub k (fun d => N.eqb 64 d = false)); [reflexivity|]. intros _.
+      destruct k; [exact I|apply Hk2']. }
+  split; [apply ws_opt_gap; intros t g T E; destruct sub as [[ss g']|]; [|discriminate]; inversion E; reflexivity|].
+  split; [intros _; destruct sub as [[ss g']|]; reflexivity|]. split; [intros H; contradiction|].
+  split; [|exact I].
+  apply opt_elt_runs.
+  - intros t g T E i. destruct sub as [[ss g']|] eqn:Es; [|discriminate]. inversion E; subst t g T. cbn [app]. apply (Hsub ss g' eq_refl).
+  - intros E i. apply selectionset_fails. destruct sub as [[ss g']|]; [discriminate|]. unfold K. cbn [sub_gap app].
+    destruct k; [exact I|apply Hk2'].
+Qed.
+
+Definition field_txt al n g1 ar ds sub : str :=
+  alias_text al ++ n ++ g1 ++ oargs_text ar ++ dirs_text ds ++ sub_text sub.
+Lemma sel_full_field al n g1 ar ds sub : sel_full (RField al n g1 ar ds sub) = field_txt al n g1 ar ds sub ++ sub_gap sub.
+Proof. cbn [sel_full]. unfold field_txt. destruct sub as [[ss g]|]; cbn [sub_text sub_gap]; rewrite <- !app_assoc; reflexivity. Qed.
+
+Lemma field_chain_txt al n g1 ar ds sub cd Tf K : dirs_text ds = cd ++ dirs_tail ds ->
+  chain_txt (field_elts al n g1 ar ds cd sub Tf) K = field_txt al n g1 ar ds sub ++ K.
+Proof.
+  intros Hcd. unfold field_elts, field_txt. rewrite !chain_txt_cons. cbn [chain_txt].
+  rewrite !opt_elt_txt, alias_o_text, args_o_text, sub_o_text, (dirs_o_text ds cd (dirs_tail ds) Hcd).
+  cbn [name_elt c_text c_gap fst snd]. rewrite <- !app_assoc. reflexivity.
+Qed.
+Lemma field_chain_len al n g1 ar ds sub cd Tf : dirs_text ds = cd ++ dirs_tail ds ->
+  chain_len (field_elts al n g1 ar ds cd sub Tf) = slen (field_txt al n g1 ar ds sub).
+Proof.
+  intros Hcd. unfold field_elts, field_txt. cbn [chain_len].
+  rewrite !opt_elt_len, alias_o_text, args_o_text, sub_o_text, (dirs_o_text ds cd (dirs_tail ds) Hcd).
+  cbn [name_elt c_text c_gap fst snd]. rewrite !slen_app. lia.
+Qed.
+
+Definition field_sel_tree al n g1 ar ds sub cd Tf (i : N) : pr :=
+  let e := i + slen (field_txt al n g1 ar ds sub) in
+  Pair R_Selection i e [Pair R_Field i e (chain_trees (field_elts al n g1 ar ds cd sub Tf) i)].
+
+Lemma field_sel_runs al n g1 ar ds sub cd Tf k :
+  wf_alias al = true -> is_name n = true -> ws g1 = true -> wf_oargs ar = true -> forallb rdir_wf ds = true ->
+  dirs_text ds = cd ++ dirs_tail ds -> ws (dirs_tail ds) = true -> dirs_run ds cd ->
+  (forall ss g, sub = Some (ss, g) -> ss_runs ss Tf) ->
+  sel_follow k -> name_end_ok (sel_full (RField al n g1 ar ds sub)) k ->
+  forall i, runs G true ANon (Call R_Selection) (field_txt al n g1 ar ds sub ++ sub_gap sub ++ k) i
+    (Ok (sub_gap sub ++ k, i + slen (field_txt al n g1 ar ds sub), [field_sel_tree al n g1 ar ds sub cd Tf i])).
+Proof.
+  intros Hal Hn Hg1 Har Hds Hcd Hgd Hdrun Hsub Hk Hend i.
+  pose proof (field_chain al n g1 ar ds sub cd Tf k Hal Hn Hg1 Har Hds Hcd Hgd Hdrun Hsub Hk Hend) as Hok.
+  assert (Hne : field_elts al n g1 ar ds cd sub Tf <> []) by (unfold field_elts; discriminate).
+  pose proof (chain_runs _ _ Hne Hok i) as H.
+  rewrite (field_chain_txt al n g1 ar ds sub cd Tf _ Hcd), (field_chain_len al n g1 ar ds sub cd Tf Hcd) in H.
+  unfold field_elts at 1 in H. cbn [map seqs] in H. rewrite !c_exp_opt in H. cbn [name_elt c_exp fst] in H.
+  unfold field_sel_tree. cbn zeta.
+  enter_rec_n R_Selection. apply runs_Alt_l. enter_rec_n R_Field. exact H.
+Qed.
+
+(** ** the builder on the parts of a field *)
+Lemma chain_trees_cons c r i : chain_trees (c :: r) i = c_tree c i ++ chain_trees r (i + slen (c_text c) + slen (c_gap c)).
+Proof. reflexivity. Qed.
+Lemma c_tree_name n g1 j : c_tree (name_elt n g1) j = [Pair R_Name j (j + slen n) []].
+Proof. reflexivity. Qed.
+Lemma name_elt_len n g1 : slen (c_text (name_elt n g1)) + slen (c_gap (name_elt n g1)) = slen n + slen g1.
+Proof. reflexivity. Qed.
+
+Definition alias_name (al : option (str * str * str)) : option str := match al with Some (a, _, _) => Some a | None => None end.
+Lemma alias_build al pre post file : exists al',
+  omapM (fun a => only_child a (fun n => BOk (to_ident (pre ++ alias_text al ++ post) file n))) (o_pair (alias_o al) (slen pre)) = BOk al'
+  /\ option_map iname al' = alias_name al.
+Proof.
+  destruct al as [[[a ga] gb]|]; [|exists None; split; reflexivity].
+  cbn [alias_o o_pair omapM alias_text alias_name]. unfold alias_tree, only_child. cbn [pair_kids].
+  eexists (Some _). split; [reflexivity|]. cbn [option_map to_ident iname]. f_equal.
+  unfold as_str. cbn [pair_start pair_end]. rewrite <- !app_assoc. apply substr_mid.
+Qed.
+
+Definition oargs_erase (ar : option (str * list fld * str)) : option (list (str * aval)) :=
+  match ar with Some (_, args, _) => Some (erase_args args) | None => None end.
+Lemma args_build ar pre post file : exists ar',
+  omapM (build_arguments (pre ++ oargs_text ar ++ post) file) (o_pair (args_o ar) (slen pre)) = BOk ar'
+  /\ option_map args_erase ar' = oargs_erase ar.
+Proof.
+  destruct ar as [[[g0 args] g2]|]; [|exists None; split; reflexivity].
+  cbn [args_o o_pair omapM oargs_text oargs_erase]. rewrite <- app_assoc.
+  destruct (build_arguments_ok g0 args pre (g2 ++ post) file) as [a [Hb He]]. rewrite Hb.
+  exists (Some a). split; [reflexivity|]. cbn [option_map]. rewrite He. reflexivity.
+Qed.
+
+Lemma dirs_build ds cd g pre post file : exists l,
+  build_directives_opt (pre ++ dirs_text ds ++ post) file (o_pair (dirs_o ds cd g) (slen pre)) = BOk l
+  /\ map dir_erase l = map rdir_erase ds.
+Proof.
+  destruct ds as [|d r]; [exists []; split; reflexivity|].
+  cbn [dirs_o o_pair build_directives_opt]. apply build_directives_ok.
+Qed.
+
+Definition ss_builds (ss : rss) (Tf : N -> pr) : Prop :=
+  forall pre rest file, exists ss', build_selection_set (pre ++ ss_text ss ++ rest) file (Tf (slen pre)) = BOk ss' /\ ss_erase ss' = erase_ss ss.
+
+Definition sub_erase (sub : option (rss * str)) : option (list asel) := match sub with Some (ss, _) => Some (erase_ss ss) | None => None end.
+Lemma sub_build sub Tf pre post file : (forall ss g, sub = Some (ss, g) -> ss_builds ss Tf) -> exists sub',
+  match o_pair (sub_o sub Tf) (slen pre) with
+  | Some s => bbind (build_selection_set (pre ++ sub_text sub ++ post) file s) (fun r => BOk (Some r))
+  | None => BOk None
+  end = BOk sub'
+  /\ option_map ss_erase sub' = sub_erase sub.
+Proof.
+  intros H. destruct sub as [[ss g]|]; [|exists None; split; reflexivity].
+  cbn [sub_o o_pair sub_text sub_erase]. destruct (H ss g eq_refl pre post file) as [ss' [Hb He]]. rewrite Hb.
+  exists (Some ss'). split; [reflexivity|]. cbn [option_map]. rewrite He. reflexivity.
+Qed.
+
+Lemma erase_sels_fix sels : (fix go (l : list rsel) := match l with [] => [] | x :: r => erase_sel x :: go r end) sels = map erase_sel sels.
+Proof. induction sels as [|s r IH]; [reflexivity|]. cbn [map]. rewrite <- IH. reflexivity. Qed.
+Lemma sel_erase_fix l : (fix go (l : list selection) := match l with [] => [] | x :: r => sel_erase x :: go r end) l = map sel_erase l.
+Proof. induction l as [|s r IH]; [reflexivity|]. cbn [map]. rewrite <- IH. reflexivity. Qed.
+
+Lemma erase_field al n g1 ar ds sub :
+  erase_sel (RField al n g1 ar ds sub) = AField (alias_name al) n (oargs_erase ar) (map rdir_erase ds) (sub_erase sub).
+Proof.
+  cbn [erase_sel]. f_equal.
+  destruct sub as [[[g0 sels] g]|]; [|reflexivity]. rewrite erase_sels_fix. reflexivity.
+Qed.
+Lemma sel_erase_field al n ar ds sub :
+  sel_erase (SField al n ar ds sub) = AField (option_map iname al) (iname n) (option_map args_erase ar) (map dir_erase ds) (option_map ss_erase sub).
+Proof.
+  cbn [sel_erase]. f_equal. destruct sub as [[p l]|]; [|reflexivity]. rewrite sel_erase_fix. reflexivity.
+Qed.
+
+Lemma field_build al n g1 ar ds sub cd Tf pre rest file :
+  dirs_text ds = cd ++ dirs_tail ds ->
+  (forall ss g, sub = Some (ss, g) -> (forall i, pair_rule (Tf i) = R_SelectionSet) /\ ss_builds ss Tf) ->
+  exists sel', build_selection_fn (pre ++ field_txt al n g1 ar ds sub ++ rest) file (field_sel_tree al n g1 ar ds sub cd Tf (slen pre)) = BOk sel'
+               /\ sel_erase sel' = erase_sel (RField al n g1 ar ds sub).
+Proof.
+  intros Hcd Hsub.
+  set (inp := pre ++ field_txt al n g1 ar ds sub ++ rest).
+  set (e1 := opt_elt (Call R_Alias) (alias_o al)). set (e3 := opt_elt (Call R_Arguments) (args_o ar)).
+  set (e4 := opt_elt (Call R_Directives) (dirs_o ds cd (dirs_tail ds))). set (e5 := opt_elt (Call R_SelectionSet) (sub_o sub Tf)).
+  pose proof (opt_elt_len (Call R_Alias) (alias_o al)) as L1. rewrite alias_o_text in L1. fold e1 in L1.
+  pose proof (opt_elt_len (Call R_Arguments) (args_o ar)) as L3. rewrite args_o_text in L3. fold e3 in L3.
+  pose proof (opt_elt_len (Call R_Directives) (dirs_o ds cd (dirs_tail ds))) as L4. rewrite (dirs_o_text ds cd (dirs_tail ds) Hcd) in L4. fold e4 in L4.
+  set (o2 := slen pre + slen (c_text e1) + slen (c_gap e1)).
+  set (o3 := o2 + slen (c_text (name_elt n g1)) + slen (c_gap (name_elt n g1))).
+  set (o4 := o3 + slen (c_text e3) + slen (c_gap e3)).
+  set (o5 := o4 + slen (c_text e4) + slen (c_gap e4)).
+  (* the input around each part *)
+  assert (HA : inp = pre ++ alias_text al ++ (n ++ g1 ++ oargs_text ar ++ dirs_text ds ++ sub_text sub ++ rest))
+    by (unfold inp, field_txt; rewrite <- !app_assoc; reflexivity).
+  assert (HN : inp = (pre ++ alias_text al) ++ n ++ (g1 ++ oargs_text ar ++ dirs_text ds ++ sub_text sub ++ rest))
+    by (unfold inp, field_txt; rewrite <- !app_assoc; reflexivity).
+  assert (HB : inp = (pre ++ alias_text al ++ n ++ g1) ++ oargs_text ar ++ (dirs_text ds ++ sub_text sub ++ rest))
+    by (unfold inp, field_txt; rewrite <- !app_assoc; reflexivity).
+  assert (HC : inp = (pre ++ alias_text al ++ n ++ g1 ++ oargs_text ar) ++ dirs_text ds ++ (sub_text sub ++ rest))
+    by (unfold inp, field_txt; rewrite <- !app_assoc; reflexivity).
+  assert (HD : inp = (pre ++ alias_text al ++ n ++ g1 ++ oargs_text ar ++ dirs_text ds) ++ sub_text sub ++ rest)
+    by (unfold inp, field_txt; rewrite <- !app_assoc; reflexivity).
+  assert (O2 : o2 = slen (pre ++ alias_text al)) by (unfold o2; rewrite slen_app; lia).
+  assert (O3 : o3 = slen (pre ++ alias_text al ++ n ++ g1)) by (pose proof (name_elt_len n g1) as L2; unfold o3; rewrite O2, !slen_app; lia).
+  assert (O4 : o4 = slen (pre ++ alias_text al ++ n ++ g1 ++ oargs_text ar)) by (unfold o4; rewrite O3, !slen_app; lia).
+  assert (O5 : o5 = slen (pre ++ alias_text al ++ n ++ g1 ++ oargs_text ar ++ dirs_text ds)) by (unfold o5; rewrite O4, !slen_app; lia).
+  destruct (alias_build al pre (n ++ g1 ++ oargs_text ar ++ dirs_text ds ++ sub_text sub ++ rest) file) as [al' [A1 A2]]. rewrite <- HA in A1.
+  destruct (args_build ar (pre ++ alias_text al ++ n ++ g1) (dirs_text ds ++ sub_text sub ++ rest) file) as [ar' [B1 B2]]. rewrite <- HB, <- O3 in B1.
+  destruct (dirs_build ds cd (dirs_tail ds) (pre ++ alias_text al ++ n ++ g1 ++ oargs_text ar) (sub_text sub ++ rest) file) as [ds' [C1 C2]]. rewrite <- HC, <- O4 in C1.
+  destruct (sub_build sub Tf (pre ++ alias_text al ++ n ++ g1 ++ oargs_text ar ++ dirs_text ds) rest file (fun ss g E => proj2 (Hsub ss g E))) as [sub' [D1 D2]]. rewrite <- HD, <- O5 in D1.
+  assert (Hname : iname (to_ident inp file (Pair R_Name o2 (o2 + slen n) [])) = n).
+  { cbn [to_ident iname]. unfold as_str. cbn [pair_start pair_end]. rewrite O2, HN. apply substr_mid. }
+  exists (SField al' (to_ident inp file (Pair R_Name o2 (o2 + slen n) [])) ar' ds' sub').
+  split; [|rewrite sel_erase_field, erase_field, A2, B2, C2, D2, Hname; reflexivity].
+  unfold field_sel_tree, field_elts. cbn zeta. unfold build_selection_fn.
+  rewrite !chain_trees_cons. cbn [chain_trees]. fold e1 e3 e4 e5. fold o2. fold o3. fold o4. fold o5. rewrite c_tree_name, app_nil_r.
+  assert (Htf : forall j (Q : pr -> Prop), (forall ss g, sub = Some (ss, g) -> Q (Tf j)) -> hdR (c_tree e5 j) Q).
+  { intros j Q HQ. rewrite <- (app_nil_r (c_tree e5 j)). apply hdR_opt; [|intros _; exact I].
+    intros t g T E. destruct sub as [[ss g']|]; [|discriminate]. inversion E; subst. exact (HQ ss g' eq_refl). }
+  assert (Hrule : forall r j, r <> R_SelectionSet -> forall ss g, sub = Some (ss, g) -> is_rule r (Tf j) = false).
+  { intros r j Hr ss g E. unfold is_rule. rewrite (proj1 (Hsub ss g E) j). destruct r; try reflexivity. contradiction. }
+  unfold e1. rewrite (slot_opt_elt R_Alias).
+  2:{ intros t g T E. destruct al as [[[a ga] gb]|]; [|discriminate]. inversion E; subst. reflexivity. }
+  2:{ intros _. reflexivity. }
+  cbn [app]. rewrite (slot_req_hit R_Name) by reflexivity.
+  unfold e3. rewrite (slot_opt_elt R_Arguments).
+  2:{ intros t g T E. destruct ar as [[[g0 args] g2]|]; [|discriminate]. inversion E; subst. reflexivity. }
+  2:{ intros _. apply hdR_opt.
+      - intros t g T E. destruct (dirs_o_some _ _ _ _ _ _ E) as [_ [_ [_ ->]]]. reflexivity.
+      - intros _. apply Htf. intros ss g E. eapply (Hrule R_Arguments); [discriminate|exact E]. }
+  unfold e4. rewrite (slot_opt_elt R_Directives).
+  2:{ intros t g T E. destruct (dirs_o_some _ _ _ _ _ _ E) as [_ [_ [_ ->]]]. reflexivity. }
+  2:{ intros _. apply Htf. intros ss g E. eapply (Hrule R_Directives); [discriminate|exact E]. }
+  rewrite <- (app_nil_r (c_tree e5 o5)). unfold e5. rewrite (slot_opt_elt R_SelectionSet).
+  2:{ intros t g T E. destruct sub as [[ss g']|]; [|discriminate]. inversion E; subst. unfold is_rule. rewrite (proj1 (Hsub ss g' eq_refl) o5). reflexivity. }
+  2:{ intros _. exact I. }
+  fold inp. rewrite A1. cbn [bbind]. rewrite B1. cbn [bbind]. rewrite C1. cbn [bbind]. rewrite D1. reflexivity.
+Qed.
+
+(** the validation pass on chains *)
+Fixpoint chain_valid (l : list celt) (k : str) : Prop :=
+  match l with
+  | [] => True
+  | c :: r => (forall pre, Forall (valid (pre ++ c_text c ++ c_gap c ++ chain_txt r k)) (c_tree c (slen pre))) /\ chain_valid r k
+  end.
+Lemma chain_trees_valid : forall l k, chain_valid l k -> forall pre, Forall (valid (pre ++ chain_txt l k)) (chain_trees l (slen pre)).
+Proof.
+  induction l as [|c r IH]; intros k H pre; [constructor|]. destruct H as [Hc Hr]. cbn [chain_txt chain_trees]. apply Forall_app. split; [apply Hc|].
+  replace (pre ++ c_text c ++ c_gap c ++ chain_txt r k) with ((pre ++ c_text c ++ c_gap c) ++ chain_txt r k) by (rewrite <- !app_assoc; reflexivity).
+  replace (slen pre + slen (c_text c) + slen (c_gap c)) with (slen (pre ++ c_text c ++ c_gap c)) by (rewrite !slen_app; lia).
+  apply IH; exact Hr.
+Qed.
+Lemma opt_elt_valid x o X :
+  (forall t g T, o = Some (t, g, T) -> forall pre, valid (pre ++ t ++ g ++ X) (T (slen pre))) ->
+  forall pre, Forall (valid (pre ++ c_text (opt_elt x o) ++ c_gap (opt_elt x o) ++ X)) (c_tree (opt_elt x o) (slen pre)).
+Proof.
+  intros H pre. destruct o as [[[t g] T]|]; cbn [opt_elt c_text c_gap c_tree fst snd]; [|constructor].
+  constructor; [apply (H t g T eq_refl)|constructor].
+Qed.
+Definition ss_valid (ss : rss) (Tf : N -> pr) : Prop := forall pre rest, valid (pre ++ ss_text ss ++ rest) (Tf (slen pre)).
+
+Lemma dirs_o_valid ds cd g X : dirs_text ds = cd ++ g ->
+  forall t g' T, dirs_o ds cd g = Some (t, g', T) -> forall pre, valid (pre ++ t ++ g' ++ X) (T (slen pre)).
+Proof.
+  intros Hcd t g' T E pre. destruct (dirs_o_some _ _ _ _ _ _ E) as [_ [-> [-> ->]]].
+  replace (pre ++ cd ++ g ++ X) with (pre ++ dirs_text ds ++ X) by (rewrite Hcd, <- !app_assoc; reflexivity).
+  apply directives_pair_valid.
+Qed.
+
+Lemma field_valid al n g1 ar ds sub cd Tf pre rest :
+  dirs_text ds = cd ++ dirs_tail ds -> (forall ss g, sub = Some (ss, g) -> ss_valid ss Tf) ->
+  valid (pre ++ field_txt al n g1 ar ds sub ++ sub_gap sub ++ rest) (field_sel_tree al n g1 ar ds sub cd Tf (slen pre)).
+Proof.
+  intros Hcd Hsub. unfold field_sel_tree. cbn zeta.
+  apply valid_node; [discriminate|]. constructor; [|constructor]. apply valid_node; [discriminate|].
+  rewrite <- (field_chain_txt al n g1 ar ds sub cd Tf _ Hcd). apply chain_trees_valid.
+  unfold field_elts. cbn [chain_valid]. repeat split.
+  - apply opt_elt_valid. intros t g T E pre'. destruct al as [[[a ga] gb]|]; [|discriminate]. inversion E; subst.
+    unfold alias_tree. apply valid_node; [discriminate|]. constructor; [apply leaf_valid; discriminate|constructor].
+  - intros pre'. cbn [name_elt c_tree snd]. constructor; [apply leaf_valid; discriminate|constructor].
+  - apply opt_elt_valid. intros t g T E pre'. destruct ar as [[[g0 args] g2]|]; [|discriminate]. inversion E; subst. apply args_tree_valid.
+  - apply opt_elt_valid. apply dirs_o_valid; exact Hcd.
+  - apply opt_elt_valid. intros t g T E pre'. destruct sub as [[ss g']|]; [|discriminate]. inversion E; subst. cbn [app]. apply (Hsub ss g' eq_refl).
+Qed.
+
+Lemma field_ok al n g1 ar ds sub :
+  wf_alias al = true -> is_name n = true -> ws g1 = true -> wf_oargs ar = true -> forallb rdir_wf ds = true -> ws (sub_gap sub) = true ->
+  (forall ss g, sub = Some (ss, g) -> ss_ok ss) ->
+  sel_ok (RField al n g1 ar ds sub).
+Proof.
+  intros Hal Hn Hg1 Har Hds Hsg Hsub.
+  destruct (dirs_split' ds Hds) as [cd [Hcd [Hgd [_ [_ Hdrun]]]]].
+  assert (HT : exists Tf, forall ss g, sub = Some (ss, g) -> (forall i, pair_rule (Tf i) = R_SelectionSet) /\ ss_runs ss Tf /\ ss_builds ss Tf /\ ss_valid ss Tf).
+  { destruct sub as [[ss g]|].
+    - destruct (Hsub ss g eq_refl) as [Tf [H1 [H2 [H3 H4]]]]. exists Tf. intros ss0 g0 E. inversion E; subst. repeat split; assumption.
+    - exists (fun i => Pair R_EOI i i []). intros ss g E. discriminate. }
+  destruct HT as [Tf HT].
+  exists (field_txt al n g1 ar ds sub), (sub_gap sub), (field_sel_tree al n g1 ar ds sub cd Tf).
+  split; [symmetry; apply sel_full_field|]. split; [exact Hsg|]. split.
+  { unfold field_txt. destruct al as [[[a ga] gb]|].
+    - cbn [wf_alias] in Hal. apply andb_true_iff in Hal. destruct Hal as [Hal _]. apply andb_true_iff in Hal. destruct Hal as [Ha _].
+      destruct (name_head a Ha) as [c [t [-> Hc]]]. cbn [alias_text app]. eexists; eexists; split; [reflexivity|left; exact Hc].
+    - destruct (name_head n Hn) as [c [t [-> Hc]]]. cbn [alias_text app]. eexists; eexists; split; [reflexivity|left; exact Hc]. }
+  split; [intros i; reflexivity|]. split.
+  - intros k i Hk Hend. apply field_sel_runs; try assumption. intros ss g E. apply (HT ss g E).
+  - split.
+    + intros pre rest file. apply (field_build al n g1 ar ds sub cd Tf pre (sub_gap sub ++ rest) file); [exact Hcd|]. intros ss g E. destruct (HT ss g E) as [H1 [_ [H3 _]]]. split; assumption.
+    + intros pre rest. apply field_valid; [exact Hcd|]. intros ss g E. apply (HT ss g E).
+Qed.
+
+(** ** fragment spreads *)
+Lemma field_fails_dot t i : runs G true ANon (Call R_Field) (46 :: t) i Fail.
+Proof.
+  enter_fail_n R_Field.
+  eapply (runs_SeqS_fail2 gse gse_eq).
+  - apply runs_Opt_none. enter_fail_n R_Alias. apply (runs_SeqS_fail1 gse gse_eq). apply name_fails; reflexivity.
+  - apply (skip_ws [] (46 :: t) i eq_refl). split; reflexivity.
+  - apply (runs_SeqS_fail1 gse gse_eq). apply name_fails; reflexivity.
+Qed.
+
+Definition fragname_tree (n : str) (j : N) : pr := Pair R_FragmentName j (j + slen n) [Pair R_Name j (j + slen n) []].
+
+Lemma fragname_runs n rest i : is_name n = true -> str_neq n K_on = true -> not_name_cont_next rest ->
+  runs G true ANon (Call R_FragmentName) (n ++ rest) i (Ok (rest, i + slen n, [fragname_tree n i])).
+Proof.
+  intros Hn Hon Hr. unfold fragname_tree. enter_rec_n R_FragmentName.
+  destruct (name_head n Hn) as [c [t [En Hc]]].
+  replace [Pair R_Name i (i + slen n) []] with (@nil pr ++ @nil pr ++ [Pair R_Name i (i + slen n) []]) by reflexivity.
+  eapply (runs_SeqS_ok gse gse_eq).
+  - apply runs_Not_ok. eapply keyword_fails_name; [reflexivity|reflexivity|apply name_chars; exact Hn|apply str_neq_ne; exact Hon|exact Hr].
+  - apply (skip_ws [] (n ++ rest) i eq_refl). rewrite En. cbn [app]. apply name_start_token; exact Hc.
+  - change (i + slen []) with (i + 0). rewrite N.add_0_r. apply name_runs; assumption.
+Qed.
+
+Definition spread_elts g n w ds cd : list celt :=
+  [(Lit dots, dots, g, fun _ => []); (Call R_FragmentName, n, w, fun j => [fragname_tree n j]);
+   opt_elt (Call R_Directives) (dirs_o ds cd [])].
+Definition spread_txt g n w cd : str := dots ++ g ++ n ++ w ++ cd.
+
+Lemma spread_tail ds cd k : dirs_text ds = cd ++ dirs_tail ds ->
+  chain_txt [opt_elt (Call R_Directives) (dirs_o ds cd [])] (dirs_tail ds ++ k) = dirs_text ds ++ k.
+Proof.
+  intros Hcd. rewrite chain_txt_cons. cbn [chain_txt]. rewrite opt_elt_txt.
+  destruct ds as [|d r]; [reflexivity|]. cbn [dirs_o o_text]. rewrite Hcd, app_nil_r, <- app_assoc. reflexivity.
+Qed.
+
+Lemma spread_chain g n w ds cd k :
+  ws g = true -> is_name n = true -> str_neq n K_on = true -> ws w = true -> forallb rdir_wf ds = true ->
+  dirs_text ds = cd ++ dirs_tail ds -> (ds = [] -> cd = []) -> dirs_run ds cd ->
+  sel_follow k -> name_end_ok (sel_full (RSpread g n w ds)) k ->
+  chain_ok (spread_elts g n w ds cd) (dirs_tail ds ++ k).
+Proof.
+  intros Hg Hn Hon Hw Hds Hcd Hcd0 Hdrun Hk Hend.
+  pose proof Hk as [Hk1 Hk2].
+  assert (Hk2' : hdP k (fun d => N.eqb 58 d = false /\ N.eqb 40 d = false /\ N.eqb 64 d = false /\ N.eqb 123 d = false)) by exact Hk2.
+  unfold spread_elts.
+  set (e3 := opt_elt (Call R_Directives) (dirs_o ds cd [])).
+  assert (E3 : chain_txt [e3] (dirs_tail ds ++ k) = dirs_text ds ++ k) by (apply spread_tail; exact Hcd).
+  set (e2 := (Call R_FragmentName, n, w, fun j => [fragname_tree n j])).
+  assert (E2 : chain_txt [e2; e3] (dirs_tail ds ++ k) = n ++ w ++ dirs_text ds ++ k) by (rewrite chain_txt_cons, E3; reflexivity).
+  cbn [chain_ok]. rewrite E2, E3. cbn [chain_txt]. unfold e2. cbn [c_text c_gap c_exp c_tree fst snd].
+  destruct (name_head n Hn) as [c0 [t0 [En Hc0]]].
+  assert (Htokd : at_token (dirs_text ds ++ k)) by (apply (hd_dirs ds k (fun d => is_wsc d = false /\ N.eqb d 35 = false)); [split; reflexivity|intros _; exact Hk1]).
+  split; [exact Hg|]. split; [intros H; discriminate|]. split; [intros _; rewrite En; cbn [app]; apply name_start_token; exact Hc0|].
+  split; [intros i; exact (runs_Lit_ok G true ANon dots (g ++ n ++ w ++ dirs_text ds ++ k) i)|].
+  split; [exact Hw|]. split; [intros H; discriminate|]. split; [intros _; exact Htokd|].
+  split.
+  { intros i. apply fragname_runs; [exact Hn|exact Hon|].
+    apply ws_then_not_name_cont; [exact Hw|]. intros Ew.
+    apply (hd_dirs ds k (fun d => is_name_cont d = false)); [reflexivity|]. intros Ed.
+    apply Hend. subst w ds. cbn [sel_full]. change (dirs_text []) with (@nil N). rewrite !app_nil_r.
+    replace (dots ++ g ++ n) with ((dots ++ g) ++ n) by (rewrite <- app_assoc; reflexivity). apply ends_name_app_name; exact Hn. }
+  split; [apply ws_opt_gap; intros t g' T E; destruct (dirs_o_some _ _ _ _ _ _ E) as [_ [_ [-> _]]]; reflexivity|].
+  split; [intros _; unfold e3; destruct ds; reflexivity|]. split; [intros H; contradiction|].
+  split; [|exact I].
+  unfold e3. apply opt_elt_runs.
+  - intros t g' T E i. destruct (dirs_o_some _ _ _ _ _ _ E) as [Hne [-> [-> ->]]]. cbn [app].
+    apply Hdrun; [exact Hne|].
+    apply (follow_dirs_sel ds None k (sel_full (RSpread g n w ds))); [exact Hne|exact Hds|exact Hk| |exact Hend].
+    intros _ x n' Hn' Hx. cbn [sel_full]. rewrite Hx.
+    replace (dots ++ g ++ n ++ w ++ x ++ n') with ((dots ++ g ++ n ++ w ++ x) ++ n') by (rewrite <- !app_assoc; reflexivity).
+    apply ends_name_app_name; exact Hn'.
+  - intros E i. apply directives_fails. destruct ds as [|d r]; [|discriminate]. cbn [dirs_tail app].
+    destruct k; [exact I|apply Hk2'].
+Qed.
+
+Lemma dirs_o_text0 ds cd : (ds = [] -> cd = []) -> o_text (dirs_o ds cd []) = cd.
+Proof. intros H. destruct ds as [|d r]; [symmetry; exact (H eq_refl)|]. cbn [dirs_o o_text]. apply app_nil_r. Qed.
+
+Definition spread_sel_tree g n w ds cd (i : N) : pr :=
+  let e := i + slen (spread_txt g n w cd) in
+  Pair R_Selection i e [Pair R_FragmentSpread i e (chain_trees (spread_elts g n w ds cd) i)].
+
+Lemma spread_sel_runs g n w ds cd k :
+  ws g = true -> is_name n = true -> str_neq n K_on = true -> ws w = true -> forallb rdir_wf ds = true ->
+  dirs_text ds = cd ++ dirs_tail ds -> (ds = [] -> cd = []) -> dirs_run ds cd ->
+  sel_follow k -> name_end_ok (sel_full (RSpread g n w ds)) k ->
+  forall i, runs G true ANon (Call R_Selection) (spread_txt g n w cd ++ dirs_tail ds ++ k) i
+    (Ok (dirs_tail ds ++ k, i + slen (spread_txt g n w cd), [spread_sel_tree g n w ds cd i])).
+Proof.
+  intros Hg Hn Hon Hw Hds Hcd Hcd0 Hdrun Hk Hend i.
+  pose proof (spread_chain g n w ds cd k Hg Hn Hon Hw Hds Hcd Hcd0 Hdrun Hk Hend) as Hok.
+  assert (Hne : spread_elts g n w ds cd <> []) by (unfold spread_elts; discriminate).
+  pose proof (chain_runs _ _ Hne Hok i) as H.
+  assert (Htxt : chain_txt (spread_elts g n w ds cd) (dirs_tail ds ++ k) = spread_txt g n w cd ++ dirs_tail ds ++ k).
+  { unfold spread_elts. do 2 rewrite chain_txt_cons. rewrite (spread_tail ds cd k Hcd). cbn [c_text c_gap fst snd].
+    unfold spread_txt. rewrite Hcd, <- !app_assoc. reflexivity. }
+  assert (Hlen : chain_len (spread_elts g n w ds cd) = slen (spread_txt g n w cd)).
+  { unfold spread_elts, spread_txt. cbn [chain_len]. rewrite opt_elt_len, (dirs_o_text0 ds cd Hcd0). cbn [c_text c_gap fst snd]. rewrite !slen_app. lia. }
+  rewrite Htxt, Hlen in H.
+  unfold spread_elts at 1 in H. cbn [map seqs] in H. rewrite c_exp_opt in H. cbn [c_exp fst] in H.
+  unfold spread_sel_tree. cbn zeta.
+  enter_rec_n R_Selection. unfold spread_txt, dots. cbn [app].
+  apply runs_Alt_r; [apply field_fails_dot|]. apply runs_Alt_l. enter_rec_n R_FragmentSpread. exact H.
+Qed.
+
+Lemma spread_build g n w ds cd pre rest file :
+  dirs_text ds = cd ++ dirs_tail ds ->
+  exists sel', build_selection_fn (pre ++ spread_txt g n w cd ++ dirs_tail ds ++ rest) file (spread_sel_tree g n w ds cd (slen pre)) = BOk sel'
+               /\ sel_erase sel' = erase_sel (RSpread g n w ds).
+Proof.
+  intros Hcd.
+  set (inp := pre ++ spread_txt g n w cd ++ dirs_tail ds ++ rest).
+  assert (HN : inp = (pre ++ dots ++ g) ++ n ++ (w ++ dirs_text ds ++ rest))
+    by (unfold inp, spread_txt; rewrite Hcd, <- !app_assoc; reflexivity).
+  assert (HC : inp = (pre ++ dots ++ g ++ n ++ w) ++ dirs_text ds ++ rest)
+    by (unfold inp, spread_txt; rewrite Hcd, <- !app_assoc; reflexivity).
+  unfold spread_sel_tree, spread_elts. cbn zeta. unfold build_selection_fn.
+  rewrite !chain_trees_cons. cbn [chain_trees]. rewrite app_nil_r.
+  set (e3 := opt_elt (Call R_Directives) (dirs_o ds cd [])).
+  cbn [c_tree c_text c_gap fst snd app].
+  set (o2 := slen pre + slen dots + slen g). set (o3 := o2 + slen n + slen w).
+  assert (O2 : o2 = slen (pre ++ dots ++ g)) by (unfold o2; rewrite !slen_app; lia).
+  assert (O3 : o3 = slen (pre ++ dots ++ g ++ n ++ w)) by (unfold o3; rewrite O2, !slen_app; lia).
+  destruct (dirs_build ds cd [] (pre ++ dots ++ g ++ n ++ w) rest file) as [ds' [C1 C2]]. rewrite <- HC, <- O3 in C1.
+  rewrite (slot_req_hit R_FragmentName) by reflexivity.
+  rewrite <- (app_nil_r (c_tree e3 o3)). unfold e3. rewrite (slot_opt_elt R_Directives).
+  2:{ intros t g' T E. destruct (dirs_o_some _ _ _ _ _ _ E) as [_ [_ [_ ->]]]. reflexivity. }
+  2:{ intros _. exact I. }
+  fold inp. rewrite C1. cbn [bbind].
+  eexists. split; [reflexivity|]. cbn [sel_erase erase_sel to_ident iname]. rewrite C2. f_equal.
+  unfold as_str, fragname_tree. cbn [pair_start pair_end]. rewrite O2, HN. apply substr_mid.
+Qed.
+
+Lemma spread_valid g n w ds cd pre rest : dirs_text ds = cd ++ dirs_tail ds ->
+  valid (pre ++ spread_txt g n w cd ++ dirs_tail ds ++ rest) (spread_sel_tree g n w ds cd (slen pre)).
+Proof.
+  intros Hcd. unfold spread_sel_tree. cbn zeta.
+  apply valid_node; [discriminate|]. constructor; [|constructor]. apply valid_node; [discriminate|].
+  assert (Htxt : spread_txt g n w cd ++ dirs_tail ds ++ rest = chain_txt (spread_elts g n w ds cd) (dirs_tail ds ++ rest)).
+  { unfold spread_elts. do 2 rewrite chain_txt_cons. rewrite (spread_tail ds cd rest Hcd). cbn [c_text c_gap fst snd].
+    unfold spread_txt. rewrite Hcd, <- !app_assoc. reflexivity. }
+  rewrite Htxt. apply chain_trees_valid. unfold spread_elts. cbn [chain_valid]. repeat split.
+  - intros pre'. constructor.
+  - intros pre'. cbn [c_tree snd]. constructor; [|constructor]. unfold fragname_tree. apply valid_node; [discriminate|]. constructor; [apply leaf_valid; discriminate|constructor].
+  - cbn [chain_txt]. apply opt_elt_valid. intros t g' T E pre'. destruct (dirs_o_some _ _ _ _ _ _ E) as [_ [-> [-> ->]]]. cbn [app].
+    replace (pre' ++ cd ++ dirs_tail ds ++ rest) with (pre' ++ dirs_text ds ++ rest) by (rewrite Hcd, <- !app_assoc; reflexivity).
+    apply directives_pair_valid.
+Qed.
+
+Lemma spread_ok g n w ds :
+  ws g = true -> is_name n = true -> str_neq n K_on = true -> ws w = true -> forallb rdir_wf ds = true ->
+  sel_ok (RSpread g n w ds).
+Proof.
+  intros Hg Hn Hon Hw Hds.
+  destruct (dirs_split' ds Hds) as [cd [Hcd [Hgd [Hcd0 [_ Hdrun]]]]].
+  exists (spread_txt g n w cd), (dirs_tail ds), (spread_sel_tree g n w ds cd).
+  split; [cbn [sel_full]; unfold spread_txt; rewrite Hcd, <- !app_assoc; reflexivity|]. split; [exact Hgd|].
+  split; [unfold spread_txt, dots; cbn [app]; eexists; eexists; split; [reflexivity|right; reflexivity]|].
+  split; [intros i; reflexivity|]. split.
+  - intros k i Hk Hend. apply spread_sel_runs; assumption.
+  - split; [intros pre rest file; apply spread_build; exact Hcd|intros pre rest; apply spread_valid; exact Hcd].
+Qed.
+
+(** ** inline fragments *)
+Definition wf_cond (c : option (str * str * str)) : bool :=
+  match c with Some (gc, t, gt) => ws gc && negb (match gc with [] => true | _ => false end) && is_name t && ws gt | None => true end.
+Definition typecond_tree (gc t : str) (j : N) : pr :=
+  Pair R_TypeCondition j (j + slen (K_on ++ gc ++ t))
+    [Pair R_KEYWORD_on j (j + slen K_on) []; core_tree (RNamed t) (j + slen K_on + slen gc)].
+Definition cond_o (c : option (str * str * str)) : oelt :=
+  match c with Some (gc, t, gt) => Some (K_on ++ gc ++ t, gt, typecond_tree gc t) | None => None end.
+Lemma cond_o_text c : o_text (cond_o c) = cond_text c.
+Proof. destruct c as [[[gc t] gt]|]; [|reflexivity]. cbn [cond_o o_text cond_text]. rewrite <- !app_assoc. reflexivity. Qed.
+
+Lemma hd_cond c R (P : N -> Prop) : P 111 -> (c = None -> hdP R P) -> hdP (cond_text c ++ R) P.
+Proof. intros H1 H2. destruct c as [[[gc t] gt]|]; [exact H1|exact (H2 eq_refl)]. Qed.
+
+Lemma ws_nonempty_not_name_cont w k : ws w = true -> w <> [] -> not_name_cont_next (w ++ k).
+Proof. intros Hw Hne. apply ws_then_not_name_cont; [exact Hw|]. intros E. contradiction. Qed.
+
+Lemma typecond_runs gc t rest i : ws gc = true -> gc <> [] -> is_name t = true -> not_name_cont_next rest ->
+  runs G true ANon (Call R_TypeCondition) ((K_on ++ gc ++ t) ++ rest) i
+    (Ok (rest, i + slen (K_on ++ gc ++ t), [typecond_tree gc t i])).
+Proof.
+  intros Hgc Hne Ht Hr. unfold typecond_tree. enter_rec_n R_TypeCondition.
+  replace ((K_on ++ gc ++ t) ++ rest) with (K_on ++ (gc ++ (t ++ rest))) by (rewrite <- !app_assoc; reflexivity).
+  replace (i + slen (K_on ++ gc ++ t)) with (i + slen K_on + slen gc + slen t) by (rewrite !slen_app; lia).
+  replace [Pair R_KEYWORD_on i (i + slen K_on) []; core_tree (RNamed t) (i + slen K_on + slen gc)]
+    with ([Pair R_KEYWORD_on i (i + slen K_on) []] ++ @nil pr ++ [core_tree (RNamed t) (i + slen K_on + slen gc)]) by reflexivity.
+  destruct (name_head t Ht) as [c [t' [Et Hc]]].
+  eapply (runs_SeqS_ok gse gse_eq).
+  - exact (keyword_ok R_KEYWORD_on K_on (gc ++ t ++ rest) true i eq_refl (ws_nonempty_not_name_cont gc _ Hgc Hne)).
+  - apply skip_ws; [exact Hgc|]. rewrite Et. cbn [app]. apply name_start_token; exact Hc.
+  - apply namedtype_runs; assumption.
+Qed.
+
+Lemma typecond_fails c t i : N.eqb 111 c = false -> runs G true ANon (Call R_TypeCondition) (c :: t) i Fail.
+Proof.
+  intros H. enter_fail_n R_TypeCondition. apply (runs_SeqS_fail1 gse gse_eq).
+  exact (keyword_fails_head R_KEYWORD_on [110] 111 c t true i eq_refl H).
+Qed.
+
+(** FragmentSpread does not match an inline fragment *)
+Lemma fragmentspread_fails g R i : ws g = true -> at_token R ->
+  ((exists gc X, R = K_on ++ gc ++ X /\ ws gc = true /\ gc <> []) \/ (exists c X, R = c :: X /\ N.eqb 111 c = false /\ is_name_start c = false)) ->
+  runs G true ANon (Call R_FragmentSpread) (dots ++ g ++ R) i Fail.
+Proof.
+  intros Hg Htok HR. enter_fail_n R_FragmentSpread.
+  eapply (runs_SeqS_fail2 gse gse_eq); [exact (runs_Lit_ok G true ANon dots (g ++ R) i)|apply skip_ws; assumption|].
+  apply (runs_SeqS_fail1 gse gse_eq). enter_fail_n R_FragmentName.
+  destruct HR as [[gc [X [-> [Hgc Hne]]]]|[c [X [-> [H111 Hns]]]]].
+  - apply (runs_SeqS_fail1 gse gse_eq). eapply runs_Not_fail.
+    exact (keyword_ok R_KEYWORD_on K_on (gc ++ X) true _ eq_refl (ws_nonempty_not_name_cont gc _ Hgc Hne)).
+  - eapply (runs_SeqS_fail2 gse gse_eq).
+    + apply runs_Not_ok. exact (keyword_fails_head R_KEYWORD_on [110] 111 c X true _ eq_refl H111).
+    + apply (skip_ws [] (c :: X) _ eq_refl). exact Htok.
+    + apply name_fails; exact Hns.
+Qed.
+
+Definition inline_elts g c ds cd ss Tf : list celt :=
+  [(Lit dots, dots, g, fun _ => []); opt_elt (Call R_TypeCondition) (cond_o c);
+   opt_elt (Call R_Directives) (dirs_o ds cd (dirs_tail ds)); (Call R_SelectionSet, ss_text ss, [], fun j => [Tf j])].
+Definition inline_txt g c ds ss : str := dots ++ g ++ cond_text c ++ dirs_text ds ++ ss_text ss.
+
+Lemma inline_chain g c ds cd ss Tf gap k :
+  ws g = true -> wf_cond c = true -> forallb rdir_wf ds = true ->
+  dirs_text ds = cd ++ dirs_tail ds -> ws (dirs_tail ds) = true -> dirs_run ds cd -> ss_runs ss Tf ->
+  sel_follow k ->
+  chain_ok (inline_elts g c ds cd ss Tf) (gap ++ k).
+Proof.
+  intros Hg Hc Hds Hcd Hgd Hdrun Hss Hk.
+  set (K := gap ++ k). set (R3 := ss_text ss ++ K). set (R2 := dirs_text ds ++ R3).
+  unfold inline_elts.
+  set (e2 := opt_elt (Call R_TypeCondition) (cond_o c)). set (e3 := opt_elt (Call R_Directives) (dirs_o ds cd (dirs_tail ds))).
+  set (e4 := (Call R_SelectionSet, ss_text ss, [], fun j => [Tf j])).
+  assert (E4 : chain_txt [e4] K = R3) by reflexivity.
+  assert (E3 : chain_txt [e3; e4] K = R2) by (rewrite chain_txt_cons, E4; unfold e3; rewrite opt_elt_txt, (dirs_o_text ds cd (dirs_tail ds) Hcd); reflexivity).
+  assert (E2 : chain_txt [e2; e3; e4] K = cond_text c ++ R2) by (rewrite chain_txt_cons, E3; unfold e2; rewrite opt_elt_txt, cond_o_text; reflexivity).
+  cbn [chain_ok]. rewrite E2, E3, E4. cbn [chain_txt]. unfold e4. cbn [c_text c_gap c_exp c_tree fst snd].
+  destruct (ss_text_head ss) as [st Est].
+  assert (Htok3 : at_token R3) by (unfold R3; rewrite Est; split; reflexivity).
+  assert (Htok2 : at_token R2) by (apply (hd_dirs ds R3 (fun d => is_wsc d = false /\ N.eqb d 35 = false)); [split; reflexivity|intros _; exact Htok3]).
+  split; [exact Hg|]. split; [intros H; discriminate|].
+  split; [intros _; apply (hd_cond c R2 (fun d => is_wsc d = false /\ N.eqb d 35 = false)); [split; reflexivity|intros _; exact Htok2]|].
+  split; [intros i; exact (runs_Lit_ok G true ANon dots (g ++ cond_text c ++ R2) i)|].
+  split; [apply ws_opt_gap; intros t g' T E; destruct c as [[[gc t0] gt]|]; [|discriminate]; inversion E; subst;
+          cbn [wf_cond] in Hc; apply andb_true_iff in Hc; tauto|].
+  split; [intros H; discriminate|]. split; [intros _; exact Htok2|].
+  split.
+  { unfold e2. apply opt_elt_runs.
+    - intros t g' T E i. destruct c as [[[gc t0] gt]|]; [|discriminate]. inversion E; subst.
+      cbn [wf_cond] in Hc. apply andb_true_iff in Hc. destruct Hc as [Hc Hgt]. apply andb_true_iff in Hc. destruct Hc as [Hc Ht0].
+      apply andb_true_iff in Hc. destruct Hc as [Hgc Hne]. apply negb_true_iff in Hne.
+      apply typecond_runs; [exact Hgc|intros ->; discriminate|exact Ht0|].
+      apply ws_then_not_name_cont; [exact Hgt|]. intros _.
+      apply (hd_dirs ds R3 (fun d => is_name_cont d = false)); [reflexivity|]. intros _. unfold R3. rewrite Est. reflexivity.
+    - intros E i.
+      assert (H : hdP R2 (fun d => N.eqb 111 d = false)).
+      { apply (hd_dirs ds R3 (fun d => N.eqb 111 d = false)); [reflexivity|]. intros _. unfold R3. rewrite Est. reflexivity. }
+      destruct R2 as [|d0 R2']; [|apply typecond_fails; exact H].
+      enter_fail_n R_TypeCondition. apply (runs_SeqS_fail1 gse gse_eq).
+      destruct (keyword_regime R_KEYWORD_on K_on ANon eq_refl) as [Hsk [Hat _]].
+      apply (@runs_Call_fail _ G true ANon R_KEYWORD_on). rewrite Hsk, Hat.
+      exact (keyword_body_runs R_KEYWORD_on K_on eq_refl [] i). }
+  split; [apply ws_opt_gap; intros t g' T E; destruct (dirs_o_some _ _ _ _ _ _ E) as [_ [_ [-> _]]]; exact Hgd|].
+  split; [intros H; discriminate|]. split; [intros _; exact Htok3|].
+  split.
+  { unfold e3. apply opt_elt_runs.
+    - intros t g' T E i. destruct (dirs_o_some _ _ _ _ _ _ E) as [Hne [-> [-> ->]]].
+      apply Hdrun; [exact Hne|].
+      apply (follow_dirs_sel ds (Some (ss, gap)) k []); [exact Hne|exact Hds|exact Hk|intros H; discriminate|intros H; discriminate].
+    - intros E i. apply directives_fails. unfold R3. rewrite Est. reflexivity. }
+  split; [reflexivity|]. split; [intros _; reflexivity|]. split; [intros H; contradiction|].
+  split; [|exact I].
+  intros i. cbn [app]. apply Hss.
+Qed.
+
+Definition inline_sel_tree g c ds cd ss Tf (i : N) : pr :=
+  let e := i + slen (inline_txt g c ds ss) in
+  Pair R_Selection i e [Pair R_InlineFragment i e (chain_trees (inline_elts g c ds cd ss Tf) i)].
+
+Lemma inline_chain_txt g c ds cd ss Tf K : dirs_text ds = cd ++ dirs_tail ds ->
+  chain_txt (inline_elts g c ds cd ss Tf) K = inline_txt g c ds ss ++ K.
+Proof.
+  intros Hcd. unfold inline_elts, inline_txt. rewrite !chain_txt_cons. cbn [chain_txt].
+  rewrite !opt_elt_txt, cond_o_text, (dirs_o_text ds cd (dirs_tail ds) Hcd).
+  cbn [c_text c_gap fst snd app]. rewrite <- !app_assoc. reflexivity.
+Qed.
+Lemma inline_chain_len g c ds cd ss Tf : dirs_text ds = cd ++ dirs_tail ds ->
+  chain_len (inline_elts g c ds cd ss Tf) = slen (inline_txt g c ds ss).
+Proof.
+  intros Hcd. unfold inline_elts, inline_txt. cbn [chain_len].
+  rewrite !opt_elt_len, cond_o_text, (dirs_o_text ds cd (dirs_tail ds) Hcd).
+  cbn [c_text c_gap fst snd]. rewrite !slen_app. change (slen []) with 0. lia.
+Qed.
+
+Lemma inline_sel_runs g c ds cd ss Tf gap k :
+  ws g = true -> wf_cond c = true -> forallb rdir_wf ds = true ->
+  dirs_text ds = cd ++ dirs_tail ds -> ws (dirs_tail ds) = true -> dirs_run ds cd -> ss_runs ss Tf ->
+  sel_follow k ->
+  forall i, runs G true ANon (Call R_Selection) (inline_txt g c ds ss ++ gap ++ k) i
+    (Ok (gap ++ k, i + slen (inline_txt g c ds ss), [inline_sel_tree g c ds cd ss Tf i])).
+Proof.
+  intros Hg Hc Hds Hcd Hgd Hdrun Hss Hk i.
+  pose proof (inline_chain g c ds cd ss Tf gap k Hg Hc Hds Hcd Hgd Hdrun Hss Hk) as Hok.
+  assert (Hne : inline_elts g c ds cd ss Tf <> []) by (unfold inline_elts; discriminate).
+  pose proof (chain_runs _ _ Hne Hok i) as H.
+  rewrite (inline_chain_txt g c ds cd ss Tf _ Hcd), (inline_chain_len g c ds cd ss Tf Hcd) in H.
+  unfold inline_elts at 1 in H. cbn [map seqs] in H. rewrite !c_exp_opt in H. cbn [c_exp fst] in H.
+  unfold inline_sel_tree. cbn zeta.
+  enter_rec_n R_Selection.
+  assert (Htxt : inline_txt g c ds ss ++ gap ++ k = dots ++ g ++ (cond_text c ++ dirs_text ds ++ ss_text ss ++ gap ++ k))
+    by (unfold inline_txt; rewrite <- !app_assoc; reflexivity).
+  destruct (ss_text_head ss) as [st Est].
+  assert (Hhead : exists c0 X, dirs_text ds ++ ss_text ss ++ gap ++ k = c0 :: X /\ (c0 = 64 \/ c0 = 123)).
+  { destruct ds as [|d r]; [rewrite Est; eexists; eexists; split; [reflexivity|right; reflexivity]|].
+    destruct (dirs_text_head d r) as [t0 ->]. eexists; eexists; split; [reflexivity|left; reflexivity]. }
+  apply runs_Alt_r; [unfold inline_txt, dots; cbn [app]; apply field_fails_dot|].
+  apply runs_Alt_r.
+  { rewrite Htxt. apply fragmentspread_fails; [exact Hg| |].
+    - apply (hd_cond c _ (fun d => is_wsc d = false /\ N.eqb d 35 = false)); [split; reflexivity|]. intros _.
+      destruct Hhead as [c0 [X [-> [-> | ->]]]]; split; reflexivity.
+    - destruct c as [[[gc t] gt]|].
+      + left. cbn [wf_cond] in Hc. apply andb_true_iff in Hc. destruct Hc as [Hc _]. apply andb_true_iff in Hc. destruct Hc as [Hc _].
+        apply andb_true_iff in Hc. destruct Hc as [Hgc Hgne]. apply negb_true_iff in Hgne.
+        exists gc. eexists. split; [cbn [cond_text]; rewrite <- !app_assoc; reflexivity|]. split; [exact Hgc|intros ->; discriminate].
+      + right. destruct Hhead as [c0 [X [E Hc0]]]. exists c0, X. split; [exact E|]. destruct Hc0 as [-> | ->]; split; reflexivity. }
+  enter_rec_n R_InlineFragment. exact H.
+Qed.
+
+Lemma erase_inline g c ds g0 sels gap :
+  erase_sel (RInline g c ds (RSS g0 sels) gap)
+  = AInline (match c with Some (_, t, _) => Some t | None => None end) (map rdir_erase ds) (erase_ss (RSS g0 sels)).
+Proof. cbn [erase_sel erase_ss]. rewrite erase_sels_fix. reflexivity. Qed.
+Lemma sel_erase_inline p c ds ss : sel_erase (SInline p c ds ss) = AInline (option_map iname c) (map dir_erase ds) (ss_erase ss).
+Proof. destruct ss as [q l]. cbn [sel_erase ss_erase]. rewrite sel_erase_fix. reflexivity. Qed.
+
+Lemma cond_build c pre post file : exists c',
+  omapM (build_type_condition (pre ++ cond_text c ++ post) file) (o_pair (cond_o c) (slen pre)) = BOk c'
+  /\ option_map iname c' = match c with Some (_, t, _) => Some t | None => None end.
+Proof.
+  destruct c as [[[gc t] gt]|]; [|exists None; split; reflexivity].
+  cbn [cond_o o_pair omapM cond_text]. unfold typecond_tree, build_type_condition. cbn [pair_kids core_tree].
+  rewrite (slot_req_hit R_KEYWORD_on) by reflexivity. rewrite (slot_req_hit R_NamedType) by reflexivity.
+  eexists (Some _). split; [reflexivity|]. cbn [option_map to_ident iname]. f_equal.
+  unfold as_str. cbn [pair_start pair_end].
+  replace (pre ++ (K_on ++ gc ++ t ++ gt) ++ post) with ((pre ++ K_on ++ gc) ++ t ++ (gt ++ post)) by (rewrite <- !app_assoc; reflexivity).
+  apply substr_mid'. rewrite !slen_app. lia.
+Qed.
+
+Lemma inline_build g c ds cd ss Tf gap pre rest file :
+  dirs_text ds = cd ++ dirs_tail ds -> (forall i, pair_rule (Tf i) = R_SelectionSet) -> ss_builds ss Tf ->
+  exists sel', build_selection_fn (pre ++ inline_txt g c ds ss ++ gap ++ rest) file (inline_sel_tree g c ds cd ss Tf (slen pre)) = BOk sel'
+               /\ sel_erase sel' = erase_sel (RInline g c ds ss gap).
+Proof.
+  intros Hcd Hrule Hb.
+  set (inp := pre ++ inline_txt g c ds ss ++ gap ++ rest).
+  set (e2 := opt_elt (Call R_TypeCondition) (cond_o c)). set (e3 := opt_elt (Call R_Directives) (dirs_o ds cd (dirs_tail ds))).
+  pose proof (opt_elt_len (Call R_TypeCondition) (cond_o c)) as L2. rewrite cond_o_text in L2. fold e2 in L2.
+  pose proof (opt_elt_len (Call R_Directives) (dirs_o ds cd (dirs_tail ds))) as L3. rewrite (dirs_o_text ds cd (dirs_tail ds) Hcd) in L3. fold e3 in L3.
+  set (o2 := slen pre + slen dots + slen g).
+  set (o3 := o2 + slen (c_text e2) + slen (c_gap e2)).
+  set (o4 := o3 + slen (c_text e3) + slen (c_gap e3)).
+  assert (HB : inp = (pre ++ dots ++ g) ++ cond_text c ++ (dirs_text ds ++ ss_text ss ++ gap ++ rest))
+    by (unfold inp, inline_txt; rewrite <- !app_assoc; reflexivity).
+  assert (HC : inp = (pre ++ dots ++ g ++ cond_text c) ++ dirs_text ds ++ (ss_text ss ++ gap ++ rest))
+    by (unfold inp, inline_txt; rewrite <- !app_assoc; reflexivity).
+  assert (HD : inp = (pre ++ dots ++ g ++ cond_text c ++ dirs_text ds) ++ ss_text ss ++ (gap ++ rest))
+    by (unfold inp, inline_txt; rewrite <- !app_assoc; reflexivity).
+  assert (O2 : o2 = slen (pre ++ dots ++ g)) by (unfold o2; rewrite !slen_app; lia).
+  assert (O3 : o3 = slen (pre ++ dots ++ g ++ cond_text c)) by (unfold o3; rewrite O2, !slen_app; lia).
+  assert (O4 : o4 = slen (pre ++ dots ++ g ++ cond_text c ++ dirs_text ds)) by (unfold o4; rewrite O3, !slen_app; lia).
+  destruct (cond_build c (pre ++ dots ++ g) (dirs_text ds ++ ss_text ss ++ gap ++ rest) file) as [c' [B1 B2]]. rewrite <- HB, <- O2 in B1.
+  destruct (dirs_build ds cd (dirs_tail ds) (pre ++ dots ++ g ++ cond_text c) (ss_text ss ++ gap ++ rest) file) as [ds' [C1 C2]]. rewrite <- HC, <- O3 in C1.
+  destruct (Hb (pre ++ dots ++ g ++ cond_text c ++ dirs_text ds) (gap ++ rest) file) as [ss' [D1 D2]]. rewrite <- HD, <- O4 in D1.
+  unfold inline_sel_tree, inline_elts. cbn zeta. unfold build_selection_fn.
+  rewrite !chain_trees_cons. cbn [chain_trees]. fold e2 e3. rewrite app_nil_r.
+  cbn [c_tree c_text c_gap fst snd app]. fold o2. fold o3. fold o4.
+  assert (Hss_not : forall r, r <> R_SelectionSet -> is_rule r (Tf o4) = false).
+  { intros r Hr. unfold is_rule. rewrite (Hrule o4). destruct r; try reflexivity. contradiction. }
+  unfold e2. rewrite (slot_opt_elt R_TypeCondition).
+  2:{ intros t g' T E. destruct c as [[[gc t0] gt]|]; [|discriminate]. inversion E; subst. reflexivity. }
+  2:{ intros _. apply hdR_opt.
+      - intros t g' T E. destruct (dirs_o_some _ _ _ _ _ _ E) as [_ [_ [_ ->]]]. reflexivity.
+      - intros _. apply Hss_not. discriminate. }
+  unfold e3. rewrite (slot_opt_elt R_Directives).
+  2:{ intros t g' T E. destruct (dirs_o_some _ _ _ _ _ _ E) as [_ [_ [_ ->]]]. reflexivity. }
+  2:{ intros _. apply Hss_not. discriminate. }
+  rewrite (slot_req_hit R_SelectionSet) by (unfold is_rule; rewrite (Hrule o4); reflexivity).
+  fold inp. rewrite B1. cbn [bbind]. rewrite C1. cbn [bbind]. rewrite D1. cbn [bbind].
+  eexists. split; [reflexivity|]. rewrite sel_erase_inline. destruct ss as [g0 sels]. rewrite erase_inline, B2, C2, D2. reflexivity.
+Qed.
+
+Lemma inline_valid g c ds cd ss Tf gap pre rest : dirs_text ds = cd ++ dirs_tail ds -> ss_valid ss Tf ->
+  valid (pre ++ inline_txt g c ds ss ++ gap ++ rest) (inline_sel_tree g c ds cd ss Tf (slen pre)).
+Proof.
+  intros Hcd Hv. unfold inline_sel_tree. cbn zeta.
+  apply valid_node; [discriminate|]. constructor; [|constructor]. apply valid_node; [discriminate|].
+  rewrite <- (inline_chain_txt g c ds cd ss Tf _ Hcd). apply chain_trees_valid.
+  unfold inline_elts. cbn [chain_valid]. repeat split.
+  - intros pre'. constructor.
+  - apply opt_elt_valid. intros t g' T E pre'. destruct c as [[[gc t0] gt]|]; [|discriminate]. inversion E; subst.
+    unfold typecond_tree. apply valid_node; [discriminate|]. constructor; [apply leaf_valid; discriminate|]. constructor; [|constructor].
+    cbn [core_tree]. apply valid_node; [discriminate|]. constructor; [apply leaf_valid; discriminate|constructor].
+  - apply opt_elt_valid. apply dirs_o_valid; exact Hcd.
+  - intros pre'. cbn [c_tree c_text c_gap fst snd chain_txt app]. constructor; [apply Hv|constructor].
+Qed.
+
+Lemma inline_ok g c ds ss gap :
+  ws g = true -> wf_cond c = true -> forallb rdir_wf ds = true -> ws gap = true -> ss_ok ss ->
+  sel_ok (RInline g c ds ss gap).
+Proof.
+  intros Hg Hc Hds Hgap [Tf [Hrule [Hruns [Hbuilds Hvalid]]]].
+  destruct (dirs_split' ds Hds) as [cd [Hcd [Hgd [_ [_ Hdrun]]]]].
+  exists (inline_txt g c ds ss), gap, (inline_sel_tree g c ds cd ss Tf).
+  split; [cbn [sel_full]; unfold inline_txt; rewrite <- !app_assoc; reflexivity|]. split; [exact Hgap|].
+  split; [unfold inline_txt, dots; cbn [app]; eexists; eexists; split; [reflexivity|right; reflexivity]|].
+  split; [intros i; reflexivity|]. split.
+  - intros k i Hk _. apply inline_sel_runs; assumption.
+  - split; [intros pre rest file; apply inline_build; assumption|intros pre rest; apply inline_valid; assumption].
+Qed.
+
+(** ** selection sets *)
+Section RselInd.
+Variable P : rsel -> Prop.
+Variable Q : rss -> Prop.
+Definition sub_Q (sub : option (rss * str)) : Prop := match sub with Some p => Q (fst p) | None => True end.
+Hypothesis HF : forall al n g1 ar ds sub, sub_Q sub -> P (RField al n g1 ar ds sub).
+Hypothesis HS : forall g n w ds, P (RSpread g n w ds).
+Hypothesis HI : forall g c ds ss gap, Q ss -> P (RInline g c ds ss gap).
+Hypothesis HSS : forall g0 sels, Forall P sels -> Q (RSS g0 sels).
+Fixpoint rsel_ind2 (s : rsel) : P s :=
+  match s with
+  | RField al n g1 ar ds sub =>
+      HF al n g1 ar ds sub
+        (match sub as o return sub_Q o with
+         | Some p => rss_ind2 (fst p)
+         | None => I
+         end)
+  | RSpread g n w ds => HS g n w ds
+  | RInline g c ds ss gap => HI g c ds ss gap (rss_ind2 ss)
+  end
+with rss_ind2 (ss : rss) : Q ss :=
+  match ss with
+  | RSS g0 sels => HSS g0 sels
+      ((fix go (l : list rsel) : Forall P l :=
+          match l with [] => Forall_nil _ | s :: r => Forall_cons s (rsel_ind2 s) (go r) end) sels)
+  end.
+End RselInd.
+
+(** well-formedness of the rendering, computable *)
+Definition sep_ok (t k : str) : bool :=
+  negb (ends_name t) || match k with d :: _ => negb (is_name_cont d) | [] => true end.
+Fixpoint seps_ok (l : list rsel) : bool :=
+  match l with
+  | s1 :: r => match r with s2 :: _ => sep_ok (sel_full s1) (sel_full s2) && seps_ok r | [] => true end
+  | [] => true
+  end.
+
+Fixpoint wf_sel (s : rsel) : bool :=
+  match s with
+  | RField al n g1 ar ds sub =>
+      wf_alias al && is_name n && ws g1 && wf_oargs ar && forallb rdir_wf ds &&
+      match sub with Some (ss, g) => wf_ss ss && ws g | None => true end
+  | RSpread g n w ds => ws g && is_name n && str_neq n K_on && ws w && forallb rdir_wf ds
+  | RInline g c ds ss gap => ws g && wf_cond c && forallb rdir_wf ds && wf_ss ss && ws gap
+  end
+with wf_ss (ss : rss) : bool :=
+  match ss with
+  | RSS g0 sels =>
+      ws g0 && negb (match sels with [] => true | _ => false end) &&
+      (fix all (l : list rsel) : bool := match l with [] => true | s :: r => wf_sel s && all r end) sels &&
+      seps_ok sels
+  end.
+
+Lemma wf_all_fix sels : (fix all (l : list rsel) : bool := match l with [] => true | s :: r => wf_sel s && all r end) sels = forallb wf_sel sels.
+Proof. induction sels as [|s r IH]; [reflexivity|]. cbn [forallb]. rewrite <- IH. reflexivity. Qed.
+
+Lemma selection_fails c t i : is_name_start c = false -> N.eqb 46 c = false -> at_token (c :: t) ->
+  runs G true ANon (Call R_Selection) (c :: t) i Fail.
+Proof.
+  intros Hc Hd Htok. enter_fail_n R_Selection.
+  apply runs_Alt_r.
+  { enter_fail_n R_Field. eapply (runs_SeqS_fail2 gse gse_eq).
+    - apply runs_Opt_none. enter_fail_n R_Alias. apply (runs_SeqS_fail1 gse gse_eq). apply name_fails; exact Hc.
+    - apply (skip_ws [] (c :: t) i eq_refl). exact Htok.
+    - apply (runs_SeqS_fail1 gse gse_eq). apply name_fails; exact Hc. }
+  apply runs_Alt_r.
+  { enter_fail_n R_FragmentSpread. apply (runs_SeqS_fail1 gse gse_eq). apply runs_Lit_head_fail; exact Hd. }
+  enter_fail_n R_InlineFragment. apply (runs_SeqS_fail1 gse gse_eq). apply runs_Lit_head_fail; exact Hd.
+Qed.
+
+Lemma sels_text_cons s r : sels_text (s :: r) = sel_full s ++ sels_text r.
+Proof. reflexivity. Qed.
+
+Lemma sel_ok_head s : sel_ok s -> exists c t, sel_full s = c :: t /\ (is_name_start c = true \/ c = 46).
+Proof.
+  intros [txt [gap [Tf [Hfull [_ [[c [t [-> Hc]]] _]]]]]]. exists c, (t ++ gap). split; [rewrite <- Hfull; reflexivity|exact Hc].
+Qed.
+
+Lemma sel_start_follow c t : (is_name_start c = true \/ c = 46) -> sel_follow (c :: t).
+Proof.
+  intros H. split.
+  - destruct H as [H| ->]; [apply name_start_token; exact H|split; reflexivity].
+  - destruct H as [H| ->]; [|repeat split; reflexivity].
+    split; [exact (head_ne is_name_start 58 c eq_refl H)|]. split; [exact (head_ne is_name_start 40 c eq_refl H)|].
+    split; [exact (head_ne is_name_start 64 c eq_refl H)|exact (head_ne is_name_start 123 c eq_refl H)].
+Qed.
+
+Lemma sep_name_end t k X : sep_ok t k = true -> k <> [] -> name_end_ok t (k ++ X).
+Proof.
+  intros H Hne He. unfold sep_ok in H. rewrite He in H. cbn [negb orb] in H.
+  destruct k as [|d k']; [contradiction|]. cbn [app not_name_cont_next]. apply negb_true_iff in H. exact H.
+Qed.
+
+Lemma close_brace_token rest : at_token ([125] ++ rest).
+Proof. split; reflexivity. Qed.
+
+Lemma sels_items : forall sels, Forall sel_ok sels -> seps_ok sels = true ->
+  exists its : list item,
+    items_text its = sels_text sels /\ length its = length sels /\
+    (forall rest, items_ok (Call R_Selection) [125] rest its) /\
+    (forall i, forallb (is_rule R_Selection) (items_trees its i) = true) /\
+    (forall pre post file, exists l,
+        mapM (build_selection_fn (pre ++ items_text its ++ post) file) (items_trees its (slen pre)) = BOk l
+        /\ map sel_erase l = map erase_sel sels) /\
+    Forall item_valid its.
+Proof.
+  induction sels as [|s r IH]; intros Hall Hsep.
+  { exists []. split; [reflexivity|]. split; [reflexivity|]. split; [intros rest; exact I|]. split; [intros i; reflexivity|].
+    split; [|constructor]. intros pre post file. exists []. split; reflexivity. }
+  inversion Hall as [|? ? Hs Hr]; subst.
+  assert (Hsep_r : seps_ok r = true).
+  { cbn [seps_ok] in Hsep. destruct r as [|s2 r2]; [reflexivity|]. apply andb_true_iff in Hsep. tauto. }
+  destruct (IH Hr Hsep_r) as [its [Htxt [Hlen [Hok [Hrules [Hbuild Hvalid]]]]]].
+  pose proof Hs as [txt [gap [Tf [Hfull [Hgap [[c [t [Etxt Hc]]] [Hrule [Hrun [Hb Hv]]]]]]]]].
+  exists ((txt, gap, fun i => [Tf i]) :: its).
+  split; [cbn [items_text]; unfold it_text, it_gap; cbn [fst snd]; rewrite Htxt, sels_text_cons, <- Hfull, <- app_assoc; reflexivity|].
+  split; [cbn [length]; rewrite Hlen; reflexivity|].
+  split.
+  { intros rest. cbn [items_ok]. split; [|apply Hok].
+    unfold item_ok, it_text, it_gap, it_tree. cbn [fst snd].
+    split; [exact Hgap|]. split; [rewrite Etxt; cbn [app]; destruct Hc as [Hc| ->]; [apply name_start_token; exact Hc|split; reflexivity]|].
+    intros i. rewrite Htxt.
+    destruct r as [|s2 r2].
+    - cbn [sels_text flat_map app]. apply Hrun.
+      + split; [split; reflexivity|repeat split; reflexivity].
+      + intros _. reflexivity.
+    - inversion Hr as [|? ? Hs2 _]; subst. destruct (sel_ok_head s2 Hs2) as [c2 [t2 [E2 Hc2]]].
+      rewrite sels_text_cons. apply Hrun.
+      + rewrite E2. cbn [app]. apply sel_start_follow; exact Hc2.
+      + cbn [seps_ok] in Hsep. apply andb_true_iff in Hsep. destruct Hsep as [Hsep _].
+        rewrite <- app_assoc. apply sep_name_end; [exact Hsep|rewrite E2; discriminate]. }
+  split.
+  { intros i. cbn [items_trees]. unfold it_tree at 1. cbn [snd app forallb]. unfold is_rule at 1. rewrite Hrule. cbn [rule_eqb andb].
+    change (rule_eqb R_Selection R_Selection) with true. cbn [andb]. apply Hrules. }
+  split.
+  2:{ constructor; [|exact Hvalid]. intros pre rest. unfold it_text, it_gap, it_tree. cbn [fst snd]. constructor; [apply Hv|constructor]. }
+  intros pre post file.
+  cbn [items_text items_trees]. unfold it_text, it_gap, it_tree. cbn [fst snd app].
+  destruct (Hb pre (items_text its ++ post) file) as [sel' [Hb1 Hb2]].
+  destruct (Hbuild (pre ++ txt ++ gap) post file) as [l [Hl1 Hl2]].
+  exists (sel' :: l). split; [|cbn [map]; rewrite Hb2, Hl2; reflexivity].
+  rewrite mapM_cons.
+  replace (pre ++ (txt ++ gap ++ items_text its) ++ post) with (pre ++ txt ++ gap ++ items_text its ++ post) by (rewrite <- !app_assoc; reflexivity).
+  rewrite Hb1.
+  replace (pre ++ txt ++ gap ++ items_text its ++ post) with ((pre ++ txt ++ gap) ++ items_text its ++ post) by (rewrite <- !app_assoc; reflexivity).
+  replace (slen pre + slen txt + slen gap) with (slen (pre ++ txt ++ gap)) by (rewrite !slen_app; lia).
+  rewrite Hl1. reflexivity.
+Qed.
+
+Lemma ss_ok_of g0 sels : ws g0 = true -> sels <> [] -> Forall sel_ok sels -> seps_ok sels = true -> ss_ok (RSS g0 sels).
+Proof.
+  intros Hg0 Hne Hall Hsep.
+  destruct (sels_items sels Hall Hsep) as [its [Htxt [Hlen [Hok [Hrules [Hbuild Hvalid]]]]]].
+  destruct its as [|it its']; [destruct sels; [contradiction|discriminate]|].
+  set (txt := ss_text (RSS g0 sels)).
+  exists (fun i => Pair R_SelectionSet i (i + slen txt) (items_trees (it :: its') (i + 1 + slen g0))).
+  split; [intros i; reflexivity|]. split; [|split].
+  - intros rest i. fold txt.
+    assert (Ht : txt ++ rest = [123] ++ g0 ++ (items_text (it :: its') ++ [125] ++ rest)).
+    { unfold txt. rewrite ss_text_eq, Htxt, <- !app_assoc. reflexivity. }
+    assert (Hl : i + slen txt = i + 1 + slen g0 + slen (items_text (it :: its')) + 1).
+    { unfold txt. rewrite ss_text_eq, Htxt, !slen_app. change (slen [123]) with 1. change (slen [125]) with 1. lia. }
+    rewrite Ht, Hl. enter_rec_n R_SelectionSet.
+    replace (items_trees (it :: its') (i + 1 + slen g0)) with (@nil pr ++ @nil pr ++ items_trees (it :: its') (i + 1 + slen g0)) by reflexivity.
+    eapply (runs_SeqS_ok gse gse_eq).
+    + exact (runs_Lit_ok G true ANon [123] (g0 ++ items_text (it :: its') ++ [125] ++ rest) i).
+    + apply skip_ws; [exact Hg0|]. apply (items_tail_token (Call R_Selection) [125] rest (close_brace_token rest) (it :: its') (Hok rest)).
+    + change (slen [123]) with 1.
+      pose proof (items_plus_close (Call R_Selection) [125] rest (close_brace_token rest)
+                    (fun j => selection_fails 125 rest j eq_refl eq_refl (close_brace_token rest)) it its' (i + 1 + slen g0) (Hok rest)) as Hp.
+      change (slen [125]) with 1 in Hp. exact Hp.
+  - intros pre rest file. fold txt.
+    destruct (Hbuild (pre ++ [123] ++ g0) ([125] ++ rest) file) as [l [Hl1 Hl2]].
+    assert (Hinp : pre ++ txt ++ rest = (pre ++ [123] ++ g0) ++ items_text (it :: its') ++ [125] ++ rest).
+    { unfold txt. rewrite ss_text_eq, Htxt, <- !app_assoc. reflexivity. }
+    rewrite build_selection_set_eq, Hrules, Hinp.
+    replace (slen pre + 1 + slen g0) with (slen (pre ++ [123] ++ g0)) by (rewrite !slen_app; change (slen [123]) with 1; lia).
+    rewrite Hl1. cbn [bbind]. eexists. split; [reflexivity|]. cbn [ss_erase erase_ss]. exact Hl2.
+  - intros pre rest. fold txt. apply valid_node; [discriminate|].
+    assert (Hinp : pre ++ txt ++ rest = (pre ++ [123] ++ g0) ++ items_text (it :: its') ++ [125] ++ rest).
+    { unfold txt. rewrite ss_text_eq, Htxt, <- !app_assoc. reflexivity. }
+    rewrite Hinp. replace (slen pre + 1 + slen g0) with (slen (pre ++ [123] ++ g0)) by (rewrite !slen_app; change (slen [123]) with 1; lia).
+    apply items_valid; exact Hvalid.
+Qed.
+
+(** every well-formed rendering of a selection / selection set is fine *)
+Theorem wf_sel_ss_ok : (forall s, wf_sel s = true -> sel_ok s) /\ (forall ss, wf_ss ss = true -> ss_ok ss).
+Proof.
+  set (P := fun s => wf_sel s = true -> sel_ok s). set (Q := fun ss => wf_ss ss = true -> ss_ok ss).
+  assert (H4 : (forall al n g1 ar ds sub, sub_Q Q sub -> P (RField al n g1 ar ds sub)) /\ (forall g n w ds, P (RSpread g n w ds)) /\
+               (forall g c ds ss gap, Q ss -> P (RInline g c ds ss gap)) /\ (forall g0 sels, Forall P sels -> Q (RSS g0 sels))).
+  2:{ destruct H4 as [HF [HS [HI HSS]]]. split; [exact (rsel_ind2 P Q HF HS HI HSS)|exact (rss_ind2 P Q HF HS HI HSS)]. }
+  unfold P, Q. split; [|split; [|split]].
+  - intros al n g1 ar ds sub IH H. cbn [wf_sel] in H.
+    apply andb_true_iff in H. destruct H as [H Hsub]. apply andb_true_iff in H. destruct H as [H Hds].
+    apply andb_true_iff in H. destruct H as [H Har]. apply andb_true_iff in H. destruct H as [H Hg1].
+    apply andb_true_iff in H. destruct H as [Hal Hn].
+    apply field_ok; try assumption.
+    + destruct sub as [[ss g]|]; [|reflexivity]. apply andb_true_iff in Hsub. cbn [sub_gap]. tauto.
+    + intros ss g E. subst sub. apply andb_true_iff in Hsub. cbn [sub_Q fst] in IH. apply IH. tauto.
+  - intros g n w ds H. cbn [wf_sel] in H.
+    apply andb_true_iff in H. destruct H as [H Hds]. apply andb_true_iff in H. destruct H as [H Hw].
+    apply andb_true_iff in H. destruct H as [H Hon]. apply andb_true_iff in H. destruct H as [Hg Hn].
+    apply spread_ok; assumption.
+  - intros g c ds ss gap IH H. cbn [wf_sel] in H.
+    apply andb_true_iff in H. destruct H as [H Hgap]. apply andb_true_iff in H. destruct H as [H Hss].
+    apply andb_true_iff in H. destruct H as [H Hds]. apply andb_true_iff in H. destruct H as [Hg Hc].
+    apply inline_ok; try assumption. apply IH; exact Hss.
+  - intros g0 sels IH H. cbn [wf_ss] in H. rewrite wf_all_fix in H.
+    apply andb_true_iff in H. destruct H as [H Hsep]. apply andb_true_iff in H. destruct H as [H Hall].
+    apply andb_true_iff in H. destruct H as [Hg0 Hne]. apply negb_true_iff in Hne.
+    apply ss_ok_of; [exact Hg0|intros ->; discriminate| |exact Hsep].
+    rewrite forallb_forall in Hall. rewrite Forall_forall in IH. apply Forall_forall. intros x Hx. apply IH; [exact Hx|apply Hall; exact Hx].
+Qed.
+
+(** parse_render for selection sets: every well-formed rendering of a selection set with whitespace trivia, in any
+    surroundings, is one SelectionSet pair over exactly its text, and the builder returns a selection set whose
+    position-erased form is the erasure of the rendering (aliases, names, arguments with values, directives, type
+    conditions, nested selection sets) *)
+Theorem parse_render_selection_set : forall ss, wf_ss ss = true ->
+  exists T : N -> pr, forall pre rest file,
+    let inp := pre ++ ss_text ss ++ rest in
+    let i := slen pre in
+    pair_rule (T i) = R_SelectionSet
+    /\ runs G true ANon (Call R_SelectionSet) (ss_text ss ++ rest) i (Ok (rest, i + slen (ss_text ss), [T i]))
+    /\ validate_pair inp (T i) = VOk
+    /\ exists ss', build_selection_set inp file (T i) = BOk ss' /\ ss_erase ss' = erase_ss ss.
+Proof.
+  intros ss Hwf. destruct (proj2 wf_sel_ss_ok ss Hwf) as [T [H1 [H2 [H3 H4]]]]. exists T. intros pre rest file inp i.
+  split; [apply H1|]. split; [apply H2|]. split; [apply H4|apply H3].
+Qed.
+
+(** a rendering inside the fragment:
+    {a:b(x:1)@d{c} ...F@e ... on T{d}...@f{e}}  with gaps *)
+Definition ex_ss : rss :=
+  RSS [32]
+    [RField (Some (s "a", [], [32])) (s "b") [] (Some ([], [((s "x", [], [32]), (RInt (s "1"), []))], [32]))
+            [RDir0 [] (s "d") [32]] (Some (RSS [32] [RField None (s "c") [32] None [] None], [10]));
+     RSpread [] (s "F") [32] [RDir0 [] (s "e") [10]];
+     RInline [32] (Some ([32], s "T", [32])) [] (RSS [] [RField None (s "d") [] None [] None]) [44];
+     RInline [] None [RDir0 [] (s "f") []] (RSS [] [RField None (s "e") [] None [] None]) []].
+Example ex_ss_wf : wf_ss ex_ss = true.
+Proof. vm_compute. reflexivity. Qed.
+Example ex_ss_text : ss_text ex_ss = s "{ a: b(x: 1) @d { c }
+...F @e
+... on T {d},...@f{e}}".
+Proof. vm_compute. reflexivity. Qed.
+
+(** the same text through the whole model parser: the document's selection set erases to the same abstract syntax *)
+Example ex_ss_document :
+  match parse_operation_document 0 (ss_text ex_ss) with
+  | POk d => match od_defs d with [DOp o] => ss_erase (op_sel o) = erase_ss ex_ss | _ => False end
+  | _ => False
+  end.
+Proof. vm_compute. reflexivity. Qed.
